@@ -1,4 +1,5 @@
 import DendroModel.Model.C07
+import DendroModel.Gen.C07Mid
 import DendroModel.Theory.C07Path
 import DendroModel.Theory.C07Perm
 import DendroModel.Theory.C17Frac
@@ -331,10 +332,10 @@ def wsum (w : List (Nat × Frac × Nat)) : ℚ := (w.map (fun e => e.2.1.toRat))
     distance and `h` is shorter than that edge; if it answers "exactly at node `p`" then `p` is the PARENT end (tail) of the
     edge at which the lengths passed sum to exactly the half distance (the branch the library got wrong); if it gives up, the
     whole walk is shorter than the half distance.
-    `_partial` with respect to clause (b): it locates the new root at the half distance from the deeper leaf `n1` along its
-    path to the MRCA; that the other leaf of the pair is then at the same distance follows from `reseed_invariant` (paths are
-    kept) but is not assembled into one statement about `rerootAtMidpoint`, and maximality of the pair is an input. -/
-theorem midpoint_walk_spec_partial : ∀ (w : List (Nat × Frac × Nat)) (plen : Frac),
+    This is the complete specification of the walk on an arbitrary list; `midpoint_equidistant` (end of this file) ties the
+    list to the tree (`rootPath`/`dropCommon`/`upList` ↔ `Path.dist`) and concludes that BOTH leaves of the pair are at half
+    their distance from the new root, `midpoint_never_fails` that the walk never gives up. -/
+theorem midpoint_walk_spec : ∀ (w : List (Nat × Frac × Nat)) (plen : Frac),
     (∀ e ∈ w, e.2.1.WF) → plen.WF →
     (∀ nd h, midWalk w plen = .onEdge nd h → ∃ pre e post, w = pre ++ e :: post ∧ e.1 = nd ∧
         wsum pre + h.toRat = plen.toRat ∧ h.toRat < e.2.1.toRat) ∧
@@ -345,7 +346,7 @@ theorem midpoint_walk_spec_partial : ∀ (w : List (Nat × Frac × Nat)) (plen :
   | (nd0, l, par) :: rest, plen, hw, hp => by
     have hl : l.WF := hw (nd0, l, par) (List.mem_cons_self ..)
     have hrest : ∀ e ∈ rest, e.2.1.WF := fun e he => hw e (List.mem_cons_of_mem _ he)
-    have ih := midpoint_walk_spec_partial rest (plen - l) hrest (Frac.sub_wf _ _)
+    have ih := midpoint_walk_spec rest (plen - l) hrest (Frac.sub_wf _ _)
     have hsub : (plen - l).toRat = plen.toRat - l.toRat := Frac.sub_toRat hp hl
     by_cases h1 : Frac.lt plen l = true
     · have h1' := (Frac.lt_iff hp hl).mp h1
@@ -598,25 +599,25 @@ theorem rotateL_eq_map (rank : Nat → Nat) : ∀ cs : List T, rotateL rank cs =
 
 end DendroModel.C07.Aux
 
-namespace DendroModel.C07
-open DendroModel DendroModel.C07.Aux
+namespace DendroModel.C07.Aux
+open DendroModel DendroModel.C07
 
-/-! ## (a) for the re-ordering operations -/
+/-! ## (a) for the re-ordering operations: leaves and total length (path lengths: `ladderize_invariant` etc. below) -/
 
 /-- `ladderize` keeps the leaves and the total length (both directions, all trees) -/
-theorem ladderize_invariant_partial (asc : Bool) (t : T) :
+theorem ladderize_leaves_total (asc : Bool) (t : T) :
     (ladderize asc t).leaves.Perm t.leaves ∧ totalQ (ladderize asc t) = totalQ t :=
   sorted_tree_inv (ladderize asc) _ (fun i x l s cs => by rw [ladderize, ladderizeL_eq_map]) t.size t (Nat.le_refl _)
 
-theorem reorder_invariant_partial (asc : Bool) (t : T) :
+theorem reorder_leaves_total (asc : Bool) (t : T) :
     (reorder asc t).leaves.Perm t.leaves ∧ totalQ (reorder asc t) = totalQ t :=
   sorted_tree_inv (reorder asc) _ (fun i x l s cs => by rw [reorder, reorderL_eq_map]) t.size t (Nat.le_refl _)
 
-theorem rotate_invariant_partial (rank : Nat → Nat) (t : T) :
+theorem rotate_leaves_total (rank : Nat → Nat) (t : T) :
     (rotate rank t).leaves.Perm t.leaves ∧ totalQ (rotate rank t) = totalQ t :=
   sorted_tree_inv (rotate rank) _ (fun i x l s cs => by rw [rotate, rotateL_eq_map]) t.size t (Nat.le_refl _)
 
-end DendroModel.C07
+end DendroModel.C07.Aux
 
 namespace DendroModel.C07.Aux
 open DendroModel DendroModel.C07
@@ -637,13 +638,11 @@ end DendroModel.C07.Aux
 namespace DendroModel.C07
 open DendroModel DendroModel.C07.Aux
 
-/-- (Single step; the whole chain, the basal collapse and the suppression are assembled in `reseed_keeps_usplits` and
-    `reroot_at_node_keeps_usplits` at the end of this file.)
-    One inversion step of the chain keeps the set of normalised (unrooted) split masks of the leaf taxa, for every
+/-- One inversion step of the chain keeps the set of normalised (unrooted) split masks of the leaf taxa, for every
     labelling in which sibling clades are disjoint and non-empty (`GoodL`) and every reference bit `lo` of the tree.
-    `_partial`: single step (the same statement for the whole chain needs `GoodL` to be carried along the chain, which is
-    not proved here; the from-scratch split oracle checks it on every generated case). -/
-theorem inversion_step_keeps_unrooted_splits_partial {t u : T} (h : Step t u) (lo : Nat)
+    (The single step; `GoodL` is carried along the whole chain, through the basal collapse and the suppression, in
+    `reseed_keeps_usplits` and `reroot_at_node_keeps_usplits` at the end of this file.) -/
+theorem inversion_step_keeps_unrooted_splits {t u : T} (h : Step t u) (lo : Nat)
     (hg : Hier.GoodL (T.toHL t.cs)) (hlo : Hier.bits lo ⊆ Hier.bits (Hier.maskL (T.toHL t.cs)))
     (hsingle : ∀ a, Hier.bits lo ⊆ Hier.bits a ∨ Disjoint (Hier.bits lo) (Hier.bits a)) (hne : lo ≠ 0) :
     ∀ s, s ∈ Hier.usplits lo (T.toH u) ↔ s ∈ Hier.usplits lo (T.toH t) := by
@@ -1357,20 +1356,20 @@ theorem ladderize_invariant (asc : Bool) (t : T) (hnd : (leafIds t).Nodup) : Kee
   keeps_of_permInv
     (sorted_tree_paths (ladderize asc) _ (fun i x l s cs => by rw [ladderize, ladderizeL_eq_map]) t.size t (Nat.le_refl _)
       (by rw [← leafIds_eq_leaves]; exact hnd))
-    (ladderize_invariant_partial asc t).2
+    (ladderize_leaves_total asc t).2
 
 theorem reorder_invariant (asc : Bool) (t : T) (hnd : (leafIds t).Nodup) : Keeps t (reorder asc t) :=
   keeps_of_permInv
     (sorted_tree_paths (reorder asc) _ (fun i x l s cs => by rw [reorder, reorderL_eq_map]) t.size t (Nat.le_refl _)
       (by rw [← leafIds_eq_leaves]; exact hnd))
-    (reorder_invariant_partial asc t).2
+    (reorder_leaves_total asc t).2
 
 /-- `randomly_rotate`, whatever the recorded shuffles -/
 theorem rotate_invariant (rank : Nat → Nat) (t : T) (hnd : (leafIds t).Nodup) : Keeps t (rotate rank t) :=
   keeps_of_permInv
     (sorted_tree_paths (rotate rank) _ (fun i x l s cs => by rw [rotate, rotateL_eq_map]) t.size t (Nat.le_refl _)
       (by rw [← leafIds_eq_leaves]; exact hnd))
-    (rotate_invariant_partial rank t).2
+    (rotate_leaves_total rank t).2
 
 example : (leafIds exTree).Nodup := by decide
 example : pathLen (ladderize false exTree) 2 4 = pathLen exTree 2 4 :=
@@ -1895,8 +1894,8 @@ theorem reroot_at_edge_invariant (s : Bool) (h nw : Nat) (l1 l2 : Option Frac) (
     children are the old head with edge length `length2` and, last, the old tail with edge length `length1`** — for ANY two
     lengths, every tree, every edge whose head has a parent; `nw` fresh.
     `_partial`: stated for `suppress_unifurcations=False` only (the library default is True: then a tail left with one child is
-    spliced out and its edge merged, so this shape claim does not lift; the root-distance form that survives suppression is
-    not proved — the oracle checks it on every generated case). -/
+    spliced out and its edge merged, so this shape claim does not lift; the form that survives suppression is
+    `reroot_at_edge_root_distances` below). -/
 theorem reroot_at_edge_position_partial (h nw : Nat) (l1 l2 : Option Frac) (t : T) (p : Nat)
     (hfresh : nw ∉ idsOf t) (hpar : parentOf h t = some p) :
     (rerootAtEdge false h nw l1 l2 t).1.id = nw ∧
@@ -1947,17 +1946,17 @@ theorem midpointOf_edge_wf (a b : Nat) (t : T) (hd : Nat) (x : Frac) (h : midpoi
 
 end DendroModel.C07.Aux
 
-namespace DendroModel.C07
-open DendroModel DendroModel.C07.Aux DendroModel.C07.Path
+namespace DendroModel.C07.Aux
+open DendroModel DendroModel.C07 DendroModel.C07.Path
 
 /-- **`reroot_at_midpoint` keeps the leaves, the total length and every leaf-to-leaf path length**, both
     `suppress_unifurcations` settings, whichever pair of leaves it was handed — every tree with distinct node ids, a seed
     with at least two children, well-formed fractions; `nw` fresh.
-    `_partial`: one fact about the walk is assumed rather than proved (`hnode`): when the walk answers "exactly at node `nd`",
+    Auxiliary form: one fact about the walk is a hypothesis here (`hnode`, discharged in `reroot_at_midpoint_invariant`): when the walk answers "exactly at node `nd`",
     that node is internal (it is the parent end of an edge of the deeper leaf's root path, so it always is; deriving it from
     `rootPath`/`upList` is what is missing).  The in-edge branch is fully proved: the two sub-edge lengths the model assigns
     sum to the length of the split edge. -/
-theorem reroot_at_midpoint_invariant_partial (s : Bool) (a b nw : Nat) (t : T) (r : T × Option Bool)
+theorem reroot_at_midpoint_invariant_of_node (s : Bool) (a b nw : Nat) (t : T) (r : T × Option Bool)
     (h : rerootAtMidpoint s a b nw t = some r)
     (hids : (idsOf t).Nodup) (hfresh : nw ∉ idsOf t) (h2 : 2 ≤ t.cs.length) (hwf : LenWF t)
     (hnode : ∀ nd, midpointOf a b t = .onNode nd → ∃ m ∈ t.nodes, m.id = nd ∧ m.cs ≠ []) :
@@ -1993,7 +1992,7 @@ theorem reroot_at_midpoint_invariant_partial (s : Bool) (a b nw : Nat) (t : T) (
       exact reroot_at_edge_invariant s hd nw (some (lenOr0 hn.len - x)) (some x) t hids hfresh h2 hwf
         (fun f hf => by cases hf; exact Frac.sub_wf _ _) (fun f hf => by cases hf; exact hx) hsum
 
-end DendroModel.C07
+end DendroModel.C07.Aux
 
 namespace DendroModel.C07
 open DendroModel DendroModel.C07.Aux DendroModel.C07.Path
@@ -2191,7 +2190,7 @@ open DendroModel DendroModel.C07.Aux DendroModel.C07.Path
 theorem reroot_at_midpoint_invariant (s : Bool) (a b nw : Nat) (t : T) (r : T × Option Bool)
     (h : rerootAtMidpoint s a b nw t = some r)
     (hids : (idsOf t).Nodup) (hfresh : nw ∉ idsOf t) (h2 : 2 ≤ t.cs.length) (hwf : LenWF t) : Keeps t r.1 :=
-  reroot_at_midpoint_invariant_partial s a b nw t r h hids hfresh h2 hwf
+  reroot_at_midpoint_invariant_of_node s a b nw t r h hids hfresh h2 hwf
     (fun nd hnd => midpointOf_node_internal a b t nd (by intro e; rw [e] at h2; simp at h2) hnd)
 
 /-- unit-length `((A,B),C')` with the long edge to C: the midpoint of A–C falls inside C's edge -/
@@ -2329,16 +2328,16 @@ theorem first_after_cleanup (i : Nat) (x : Option Nat) (l : Option Frac) (s : Op
 
 end DendroModel.C07.Aux
 
-namespace DendroModel.C07
-open DendroModel DendroModel.C07.Aux DendroModel.C07.Path
+namespace DendroModel.C07.Aux
+open DendroModel DendroModel.C07 DendroModel.C07.Path
 
 /-- **clause (d) with the default `suppress_unifurcations=True`** (and without): after `to_outgroup_position` the FIRST child
     of the root spans exactly the leaves of the outgroup, for every rooting flag — `o` is the child with id `og` of the tree
     re-seeded at the outgroup's parent (with suppression a unary outgroup node may be replaced by its descendant in the same
     position, hence the leaf-set form).  Distinct node ids, seed with ≥ 2 children, well-formed fractions.
-    `_partial`: `o` is identified as a root child of `invertTo p t`; that this is the untouched subtree of `t` whose root has
-    id `og` (the inversions only touch the path to `p`) is not proved here. -/
-theorem outgroup_first_leafset_partial (flag : Option Bool) (suppress : Bool) (og : Nat) (t : T) (r : T × Option Bool)
+    Auxiliary form: `o` is identified as a root child of `invertTo p t`; `outgroup_first_leafset` (end of this file) traces it
+    back to the node with id `og` of `t` itself. -/
+theorem outgroup_first_leafset_in_reseeded (flag : Option Bool) (suppress : Bool) (og : Nat) (t : T) (r : T × Option Bool)
     (h : toOutgroup flag suppress og t = some r) (hids : (idsOf t).Nodup) (h2 : 2 ≤ t.cs.length) (hwf : LenWF t) :
     ∃ p o, parentOf og t = some p ∧ o ∈ (invertTo p t).cs ∧ o.id = og ∧
       ∃ first rest, r.1.cs = first :: rest ∧ leafIds first = leafIds o := by
@@ -2391,7 +2390,7 @@ theorem outgroup_first_leafset_partial (flag : Option Bool) (suppress : Bool) (o
           exact hwf2 n (by simp only [T.nodes]; exact List.mem_cons_of_mem _ (mem_nodesL.mpr ⟨c, P.mem_iff.mp hc, hnc⟩)) f hf
       exact first_after_cleanup i x l s o _ (unrootedFlag flag) suppress hrest hwf3 hnd3
 
-end DendroModel.C07
+end DendroModel.C07.Aux
 
 namespace DendroModel.C07
 open DendroModel DendroModel.C07.Aux
@@ -2422,7 +2421,7 @@ structure SplitKeep (lo : Nat) (t u : T) : Prop where
 theorem step_splitKeep {t u : T} (h : Step t u) (lo : Nat)
     (hg : GoodL (T.toHL t.cs)) (hlo : bits lo ⊆ bits (maskL (T.toHL t.cs)))
     (hsingle : ∀ a, bits lo ⊆ bits a ∨ Disjoint (bits lo) (bits a)) (hne : lo ≠ 0) : SplitKeep lo t u := by
-  have hs := inversion_step_keeps_unrooted_splits_partial h lo hg hlo hsingle hne
+  have hs := inversion_step_keeps_unrooted_splits h lo hg hlo hsingle hne
   cases h with
   | mk i x l s pre j y lc sc ds post hds hrest =>
     simp only [T.cs, toHL_append, T.toHL, toH_node_ne hds] at hg
@@ -2821,18 +2820,17 @@ example : GoodL (T.toHL exTree.cs) ∧ (reseedAt (some false) true true 0 exTree
 
 end DendroModel.C07
 
-namespace DendroModel.C07
-open DendroModel DendroModel.C07.Aux DendroModel.C07.Path
+namespace DendroModel.C07.Aux
+open DendroModel DendroModel.C07 DendroModel.C07.Path
 
 /-- **midpoint inside an edge, in root distances (with and without suppression):** when the walk of `reroot_at_midpoint`
     answers "inside the edge above `hd`, `x` above its head", every leaf below that head ends up at root distance `x` + its
     depth below the head, every other leaf at (edge length − `x`) + its distance from the old tail.  Together with
-    `midpoint_walk_spec_partial` (`x` + the lengths passed = half the distance of the pair) this puts the deeper leaf of the
+    `midpoint_walk_spec` (`x` + the lengths passed = half the distance of the pair) this puts the deeper leaf of the
     pair at exactly half the distance from the new root.
-    `_partial` with respect to clause (b): the second leaf of the pair being at the same distance, and the on-node branch in
-    root distances, are not assembled (needs `rootPath`/`dropCommon` tied to `Path.dist`); `hpar` (the edge's head has a parent —
-    it lies below the MRCA) is assumed. -/
-theorem midpoint_in_edge_root_distances_partial (s : Bool) (a b nw : Nat) (t : T) (r : T × Option Bool) (hd p : Nat) (x : Frac)
+    Auxiliary (superseded by `midpoint_equidistant`, which covers both branches and both leaves and assumes nothing about
+    the walk); `hpar` (the edge's head has a parent — it lies below the MRCA) is a hypothesis here. -/
+theorem midpoint_in_edge_root_distances (s : Bool) (a b nw : Nat) (t : T) (r : T × Option Bool) (hd p : Nat) (x : Frac)
     (hmid : midpointOf a b t = .onEdge hd x) (h : rerootAtMidpoint s a b nw t = some r)
     (hids : (idsOf t).Nodup) (hfresh : nw ∉ idsOf t) (hpar : parentOf hd t = some p) (h2 : 2 ≤ t.cs.length) (hwf : LenWF t) :
     ∃ c ∈ t.nodes, c.id = hd ∧ ∃ up : T, up.len = some (lenOr0 c.len - x) ∧
@@ -2860,5 +2858,1236 @@ example : midpointOf 1 2 (.node 0 none none none [.node 1 (some 0) (some ⟨1, 1
     = .onEdge 2 ⟨2, 1⟩ ∧
     parentOf 2 (.node 0 none none none [.node 1 (some 0) (some ⟨1, 1⟩) none [], .node 2 (some 1) (some ⟨3, 1⟩) none []]) = some 0 := by
   decide
+
+end DendroModel.C07.Aux
+
+namespace DendroModel.C07.Aux
+open DendroModel DendroModel.C07 DendroModel.C07.Path
+
+/-! ### clause (b): the midpoint is equidistant — path analysis -/
+
+theorem flat_unique {α β : Type} (f : α → List β) : ∀ (cs : List α), (cs.flatMap f).Nodup →
+    ∀ c ∈ cs, ∀ d ∈ cs, ∀ a, a ∈ f c → a ∈ f d → c = d
+  | [], _, c, hc, _, _, _, _, _ => by simp at hc
+  | c0 :: cs, hnd, c, hc, d, hd, a, hac, had => by
+    simp only [List.flatMap_cons] at hnd
+    obtain ⟨_, h2, h3⟩ := List.nodup_append.mp hnd
+    rcases List.mem_cons.mp hc with rfl | hc' <;> rcases List.mem_cons.mp hd with rfl | hd'
+    · rfl
+    · exact absurd rfl (h3 a hac a (List.mem_flatMap.mpr ⟨d, hd', had⟩))
+    · exact absurd rfl (h3 a had a (List.mem_flatMap.mpr ⟨c, hc', hac⟩))
+    · exact flat_unique f cs h2 c hc' d hd' a hac had
+
+theorem leavesL_flat : ∀ cs : List LT, leavesL cs = cs.flatMap leaves
+  | [] => rfl
+  | c :: cs => by simp [leavesL, leavesL_flat cs]
+
+theorem idsOfL_flat : ∀ cs : List T, idsOfL cs = cs.flatMap idsOf
+  | [] => rfl
+  | c :: cs => by rw [idsOfL_cons, idsOfL_flat cs]; simp
+
+theorem mem_leavesL_of {cs : List LT} {c : LT} {a : Nat} (hc : c ∈ cs) (ha : a ∈ leaves c) : a ∈ leavesL cs := by
+  rw [leavesL_flat]; exact List.mem_flatMap.mpr ⟨c, hc, ha⟩
+
+/-- two leaves that never lie below the same child: the path turns at this node -/
+theorem distL_sep : ∀ (cs : List LT) (a b : Nat), (∀ c ∈ cs, down c a = none ∨ down c b = none) →
+    distL cs a b = (downL cs a).bind (fun x => (downL cs b).map (x + ·))
+  | [], _, _, _ => rfl
+  | c :: cs, a, b, h => by
+    have hc := h c (List.mem_cons_self ..)
+    have ih := distL_sep cs a b (fun d hd => h d (List.mem_cons_of_mem _ hd))
+    rw [distL_cons_eq, downL_cons_eq, downL_cons_eq]
+    cases hda : down c a with
+    | some x =>
+      have hdb : down c b = none := by
+        rcases hc with h1 | h1
+        · rw [hda] at h1; cases h1
+        · exact h1
+      simp [hdb]
+    | none =>
+      cases hdb : down c b with
+      | some y =>
+        simp only
+        cases downL cs a <;> simp
+      | none => simpa using ih
+
+theorem sep_of_nodup (cs : List LT) (c : LT) (a b : Nat) (hnd : (leavesL cs).Nodup) (hc : c ∈ cs) (ha : a ∈ leaves c)
+    (hb : b ∉ leaves c) : ∀ d ∈ cs, down d a = none ∨ down d b = none := by
+  intro d hd
+  by_cases had : a ∈ leaves d
+  · have : c = d := flat_unique leaves cs (by rw [← leavesL_flat]; exact hnd) c hc d hd a ha had
+    subst this
+    exact Or.inr (down_none_of_not_mem hb)
+  · exact Or.inl (down_none_of_not_mem had)
+
+theorem downL_of_mem : ∀ (cs : List LT) (c : LT) (a : Nat), (leavesL cs).Nodup → c ∈ cs → a ∈ leaves c →
+    downL cs a = down c a
+  | [], _, _, _, hc, _ => by simp at hc
+  | c0 :: cs, c, a, hnd, hc, ha => by
+    simp only [leavesL] at hnd
+    obtain ⟨_, h2, h3⟩ := List.nodup_append.mp hnd
+    rw [downL_cons_eq]
+    rcases List.mem_cons.mp hc with rfl | hc'
+    · obtain ⟨x, hx⟩ := Option.isSome_iff_exists.mp ((down_some_iff c a).mpr ha)
+      simp [hx]
+    · have : a ∉ leaves c0 := fun h0 => h3 a h0 a (mem_leavesL_of hc' ha) rfl
+      rw [down_none_of_not_mem this]
+      exact downL_of_mem cs c a h2 hc' ha
+
+theorem distL_of_mem : ∀ (cs : List LT) (c : LT) (a b : Nat), (leavesL cs).Nodup → c ∈ cs → a ∈ leaves c → b ∈ leaves c →
+    distL cs a b = Path.dist c a b
+  | [], _, _, _, _, hc, _, _ => by simp at hc
+  | c0 :: cs, c, a, b, hnd, hc, ha, hb => by
+    simp only [leavesL] at hnd
+    obtain ⟨_, h2, h3⟩ := List.nodup_append.mp hnd
+    rw [distL_cons_eq]
+    rcases List.mem_cons.mp hc with rfl | hc'
+    · obtain ⟨x, hx⟩ := Option.isSome_iff_exists.mp ((down_some_iff c a).mpr ha)
+      obtain ⟨y, hy⟩ := Option.isSome_iff_exists.mp ((down_some_iff c b).mpr hb)
+      simp [hx, hy]
+    · have h1 : a ∉ leaves c0 := fun h0 => h3 a h0 a (mem_leavesL_of hc' ha) rfl
+      have h1' : b ∉ leaves c0 := fun h0 => h3 b h0 b (mem_leavesL_of hc' hb) rfl
+      rw [down_none_of_not_mem h1, down_none_of_not_mem h1']
+      exact distL_of_mem cs c a b h2 hc' ha hb
+
+mutual
+theorem dist_comm : ∀ (t : LT) (a b : Nat), Path.dist t a b = Path.dist t b a
+  | .leaf _ _, _, _ => rfl
+  | .node _ cs, a, b => by simp only [Path.dist]; exact distL_comm cs a b
+theorem distL_comm : ∀ (cs : List LT) (a b : Nat), distL cs a b = distL cs b a
+  | [], _, _ => rfl
+  | c :: cs, a, b => by
+    rw [distL_cons_eq, distL_cons_eq]
+    cases down c a <;> cases down c b <;> simp only
+    · exact distL_comm cs a b
+    · congr 1; funext z; ring
+    · congr 1; funext z; ring
+    · exact dist_comm c a b
+end
+
+/-! ids and leaf ids of children -/
+
+theorem leafIds_sub_ids (t : T) : ∀ a ∈ leafIds t, a ∈ idsOf t :=
+  fun a ha => ((leaves_sublist_nodes t).map T.id).subset ha
+
+def leafIdsL (cs : List T) : List Nat := (T.leavesL cs).map T.id
+
+theorem leafIdsL_eq (cs : List T) : leafIdsL cs = leavesL (toLTL cs) := (leavesL_toLTL cs).symm
+
+theorem leafIdsL_flat (cs : List T) : leafIdsL cs = cs.flatMap leafIds := by
+  induction cs with
+  | nil => rfl
+  | cons c cs ih => simp [leafIdsL, T.leavesL, leafIds] at ih ⊢; rw [ih]
+
+theorem leafIds_node_ne {i : Nat} {x : Option Nat} {l : Option Frac} {s : Option String} {cs : List T} (h : cs ≠ []) :
+    leafIds (.node i x l s cs) = leafIdsL cs := by
+  simp [leafIds, leafIdsL, leaves_node_ne h]
+
+theorem toLT_mem {cs : List T} {c : T} (h : c ∈ cs) : toLT c ∈ toLTL cs := by
+  rw [toLTL_eq_map]; exact List.mem_map_of_mem h
+
+/-- in a list of subtrees with distinct node ids, an id of the list's leaves that occurs in `c` is a leaf id of `c` -/
+theorem leaf_in_child {cs : List T} (hnd : (idsOfL cs).Nodup) {c : T} (hc : c ∈ cs) {a : Nat} (ha : a ∈ idsOf c)
+    (hl : a ∈ leafIdsL cs) : a ∈ leafIds c := by
+  rw [leafIdsL_flat] at hl
+  obtain ⟨d, hd, had⟩ := List.mem_flatMap.mp hl
+  have : c = d := flat_unique idsOf cs (by rw [← idsOfL_flat]; exact hnd) c hc d hd a ha (leafIds_sub_ids d a had)
+  rw [this]; exact had
+
+theorem leafIdsL_nodup {cs : List T} (hnd : (idsOfL cs).Nodup) : (leafIdsL cs).Nodup :=
+  ((leavesL_sublist_nodesL cs).map T.id).nodup hnd
+
+
+/-- rational sum of the edge lengths along a root path -/
+def sumQ (p : List (Nat × Option Frac)) : ℚ := (p.map (fun e => lenQ e.2)).sum
+
+theorem rootPathL_find (x : Nat) : ∀ (cs : List T) (p : List (Nat × Option Frac)), rootPathL x cs = some p →
+    ∃ c ∈ cs, rootPath x c = some p
+  | [], _, h => by simp [rootPathL] at h
+  | c :: cs, p, h => by
+    simp only [rootPathL] at h
+    split at h
+    · rename_i p' hp'; cases h; exact ⟨c, List.mem_cons_self .., hp'⟩
+    · obtain ⟨d, hd, hp⟩ := rootPathL_find x cs p h; exact ⟨d, List.mem_cons_of_mem _ hd, hp⟩
+
+theorem rootPath_basic (x : Nat) : ∀ (k : Nat) (t : T) (p : List (Nat × Option Frac)), t.size ≤ k → rootPath x t = some p →
+    (∃ tl, p = (t.id, t.len) :: tl) ∧ x ∈ idsOf t ∧ (∀ e ∈ p, ∃ n ∈ t.nodes, n.id = e.1 ∧ n.len = e.2)
+  | 0, .node i y l s cs, _, hk, _ => by simp [T.size] at hk
+  | k + 1, .node i y l s cs, p, hk, h => by
+    simp only [rootPath] at h
+    split at h
+    · rename_i hi; cases h
+      have hix : i = x := by simpa using hi
+      refine ⟨⟨[], rfl⟩, ?_, ?_⟩
+      · rw [idsOf_node, hix]; exact List.mem_cons_self ..
+      · intro e he
+        simp only [List.mem_singleton] at he; subst he
+        exact ⟨_, mem_nodes_self _, rfl, rfl⟩
+    · split at h
+      · rename_i p' hp'
+        cases h
+        obtain ⟨c, hc, hpc⟩ := rootPathL_find x cs p' hp'
+        have hsz : c.size ≤ k := by have := size_lt_of_mem hc; simp only [T.size] at hk; omega
+        obtain ⟨_, h2, h3⟩ := rootPath_basic x k c p' hsz hpc
+        refine ⟨⟨p', rfl⟩, ?_, ?_⟩
+        · rw [idsOf_node]; apply List.mem_cons_of_mem; rw [idsOfL_flat]; exact List.mem_flatMap.mpr ⟨c, hc, h2⟩
+        · intro e he
+          rcases List.mem_cons.mp he with rfl | he
+          · exact ⟨_, mem_nodes_self _, rfl, rfl⟩
+          · obtain ⟨n, hn, hh⟩ := h3 e he
+            exact ⟨n, by simp only [T.nodes]; exact List.mem_cons_of_mem _ (mem_nodesL.mpr ⟨c, hc, hn⟩), hh⟩
+      · cases h
+
+theorem leafIdsL_sub_idsL {cs : List T} {a : Nat} (h : a ∈ leafIdsL cs) : a ∈ idsOfL cs := by
+  rw [leafIdsL_flat] at h; rw [idsOfL_flat]
+  obtain ⟨d, hd, hxd⟩ := List.mem_flatMap.mp h
+  exact List.mem_flatMap.mpr ⟨d, hd, leafIds_sub_ids d _ hxd⟩
+
+/-- the root path of a leaf sums to its root distance -/
+theorem rootPath_down (x : Nat) : ∀ (k : Nat) (t : T) (p : List (Nat × Option Frac)), t.size ≤ k → rootPath x t = some p →
+    (idsOf t).Nodup → x ∈ leafIds t → down (toLT t) x = some (sumQ p)
+  | 0, .node i y l s cs, _, hk, _, _, _ => by simp [T.size] at hk
+  | k + 1, .node i y l s cs, p, hk, h, hids, hx => by
+    rw [idsOf_node] at hids
+    obtain ⟨hi, hidsL⟩ := List.nodup_cons.mp hids
+    cases cs with
+    | nil =>
+      simp only [leafIds, T.leaves, List.map_cons, List.map_nil, T.id, List.mem_singleton] at hx
+      subst hx
+      simp only [rootPath, beq_self_eq_true, if_true, Option.some.injEq] at h
+      subst h
+      simp [toLT, down, sumQ]
+    | cons c0 cs0 =>
+      have hne : (c0 :: cs0) ≠ [] := by simp
+      rw [leafIds_node_ne hne] at hx
+      have hxi : (i == x) = false := by
+        cases hix : i == x with
+        | false => rfl
+        | true =>
+          have : i = x := by simpa using hix
+          exact absurd (this ▸ leafIdsL_sub_idsL hx) hi
+      simp only [rootPath, hxi, Bool.false_eq_true, if_false] at h
+      split at h
+      · rename_i p' hp'
+        cases h
+        obtain ⟨c, hc, hpc⟩ := rootPathL_find x _ p' hp'
+        have hsz : c.size ≤ k := by have := size_lt_of_mem hc; simp only [T.size] at hk; omega
+        have hxc : x ∈ idsOf c := (rootPath_basic x k c p' hsz hpc).2.1
+        have hlc : x ∈ leafIds c := leaf_in_child hidsL hc hxc hx
+        have ih := rootPath_down x k c p' hsz hpc (idsOf_child_nodup hidsL hc) hlc
+        rw [toLT_node_ne hne]; simp only [down]
+        rw [downL_of_mem (toLTL (c0 :: cs0)) (toLT c) x (by rw [← leafIdsL_eq]; exact leafIdsL_nodup hidsL) (toLT_mem hc)
+          (by rw [← leafIds_eq_leaves]; exact hlc), ih]
+        simp [sumQ]; ring
+      · cases h
+
+
+/-- the fork of the root paths of two leaves: the MRCA `M`, its two children `c1`, `c2` leading to `a` and `b`, and the parts
+    `q1`, `q2` of the root paths below `M` -/
+structure ForkAt (t : T) (a b : Nat) (pa pb : List (Nat × Option Frac)) (M c1 c2 : T)
+    (q1 q2 : List (Nat × Option Frac)) : Prop where
+  memM : M ∈ t.nodes
+  mem1 : c1 ∈ M.cs
+  mem2 : c2 ∈ M.cs
+  pre : ∃ pre, pre ≠ [] ∧ pa = pre ++ q1 ∧ pb = pre ++ q2
+  rp1 : rootPath a c1 = some q1
+  rp2 : rootPath b c2 = some q2
+  la : a ∈ leafIds c1
+  lb : b ∈ leafIds c2
+  nb : b ∉ leafIds c1
+  dist : ∃ x y, down (toLT c1) a = some x ∧ down (toLT c2) b = some y ∧ Path.dist (toLT t) a b = some (x + y)
+
+theorem get_down_T {c : T} {a : Nat} (h : a ∈ leafIds c) : ∃ x, down (toLT c) a = some x :=
+  Option.isSome_iff_exists.mp ((down_some_iff (toLT c) a).mpr (by rw [← leafIds_eq_leaves]; exact h))
+
+/-- what `dropCommon` finds on the root paths of two different leaves -/
+theorem mrca_spec (a b : Nat) (hab : a ≠ b) : ∀ (k : Nat) (t : T) (pa pb : List (Nat × Option Frac)) (m0 : Nat), t.size ≤ k →
+    rootPath a t = some pa → rootPath b t = some pb → (idsOf t).Nodup → a ∈ leafIds t → b ∈ leafIds t →
+    ∃ M c1 c2 q1 q2, dropCommon m0 pa pb = (M.id, q1, q2) ∧ ForkAt t a b pa pb M c1 c2 q1 q2
+  | 0, .node i y l s cs, _, _, _, hk, _, _, _, _, _ => by simp [T.size] at hk
+  | k + 1, .node i y l s cs, pa, pb, m0, hk, hpa, hpb, hids, ha, hb => by
+    rw [idsOf_node] at hids
+    obtain ⟨hi, hidsL⟩ := List.nodup_cons.mp hids
+    cases cs with
+    | nil =>
+      simp only [leafIds, T.leaves, List.map_cons, List.map_nil, T.id, List.mem_singleton] at ha hb
+      exact absurd (ha.trans hb.symm) hab
+    | cons c0 cs0 =>
+      have hne : (c0 :: cs0) ≠ [] := by simp
+      rw [leafIds_node_ne hne] at ha hb
+      have hxi : ∀ x, x ∈ leafIdsL (c0 :: cs0) → (i == x) = false := by
+        intro x hx
+        cases hix : i == x with
+        | false => rfl
+        | true =>
+          have : i = x := by simpa using hix
+          exact absurd (this ▸ leafIdsL_sub_idsL hx) hi
+      simp only [rootPath, hxi a ha, Bool.false_eq_true, if_false] at hpa
+      simp only [rootPath, hxi b hb, Bool.false_eq_true, if_false] at hpb
+      split at hpa
+      · rename_i pa' hpa'
+        cases hpa
+        split at hpb
+        · rename_i pb' hpb'
+          cases hpb
+          obtain ⟨c1, hc1, hr1⟩ := rootPathL_find a _ pa' hpa'
+          obtain ⟨c2, hc2, hr2⟩ := rootPathL_find b _ pb' hpb'
+          have hsz1 : c1.size ≤ k := by have := size_lt_of_mem hc1; simp only [T.size] at hk; omega
+          have hsz2 : c2.size ≤ k := by have := size_lt_of_mem hc2; simp only [T.size] at hk; omega
+          obtain ⟨⟨tl1, ht1⟩, hai, _⟩ := rootPath_basic a k c1 pa' hsz1 hr1
+          obtain ⟨⟨tl2, ht2⟩, hbi, _⟩ := rootPath_basic b k c2 pb' hsz2 hr2
+          have hla : a ∈ leafIds c1 := leaf_in_child hidsL hc1 hai ha
+          have hlb : b ∈ leafIds c2 := leaf_in_child hidsL hc2 hbi hb
+          have hndL : (leavesL (toLTL (c0 :: cs0))).Nodup := by rw [← leafIdsL_eq]; exact leafIdsL_nodup hidsL
+          have hdc : dropCommon m0 ((i, l) :: pa') ((i, l) :: pb') = dropCommon i pa' pb' := by
+            simp [dropCommon]
+          rw [hdc]
+          by_cases hcc : c1.id = c2.id
+          · have e12 : c1 = c2 := flat_unique idsOf _ (by rw [← idsOfL_flat]; exact hidsL) c1 hc1 c2 hc2 c1.id
+              (mem_idsOf_of_mem_nodes (mem_nodes_self c1)) (hcc ▸ mem_idsOf_of_mem_nodes (mem_nodes_self c2))
+            subst e12
+            obtain ⟨M, d1, d2, q1, q2, hd, F⟩ := mrca_spec a b hab k c1 pa' pb' i hsz1 hr1 hr2
+              (idsOf_child_nodup hidsL hc1) hla hlb
+            refine ⟨M, d1, d2, q1, q2, hd, ?_⟩
+            obtain ⟨pre, hpre, e1, e2⟩ := F.pre
+            obtain ⟨x, y, hx, hy, hdist⟩ := F.dist
+            refine ⟨?_, F.mem1, F.mem2, ⟨(i, l) :: pre, by simp, by simp [e1], by simp [e2]⟩, F.rp1, F.rp2, F.la, F.lb, F.nb,
+              x, y, hx, hy, ?_⟩
+            · simp only [T.nodes]; exact List.mem_cons_of_mem _ (mem_nodesL.mpr ⟨c1, hc1, F.memM⟩)
+            · rw [toLT_node_ne hne]; simp only [Path.dist]
+              rw [distL_of_mem _ (toLT c1) a b hndL (toLT_mem hc1) (by rw [← leafIds_eq_leaves]; exact hla)
+                (by rw [← leafIds_eq_leaves]; exact hlb)]
+              exact hdist
+          · have hnb : b ∉ leafIds c1 := by
+              intro hbc
+              have e12 : c1 = c2 := flat_unique idsOf _ (by rw [← idsOfL_flat]; exact hidsL) c1 hc1 c2 hc2 b
+                (leafIds_sub_ids c1 b hbc) hbi
+              exact hcc (by rw [e12])
+            obtain ⟨x, hx⟩ := get_down_T hla
+            obtain ⟨z, hz⟩ := get_down_T hlb
+            refine ⟨.node i y l s (c0 :: cs0), c1, c2, pa', pb', ?_, ?_⟩
+            · rw [ht1, ht2]
+              have hcc' : (c1.id == c2.id) = false := by simpa using hcc
+              simp only [dropCommon, hcc', Bool.false_eq_true, if_false]; rfl
+            · refine ⟨mem_nodes_self _, hc1, hc2, ⟨[(i, l)], by simp, rfl, rfl⟩, hr1, hr2, hla, hlb, hnb, x, z, hx, hz, ?_⟩
+              rw [toLT_node_ne hne]; simp only [Path.dist]
+              rw [distL_sep _ a b (sep_of_nodup _ (toLT c1) a b hndL (toLT_mem hc1) (by rw [← leafIds_eq_leaves]; exact hla)
+                (by rw [← leafIds_eq_leaves]; exact hnb))]
+              rw [downL_of_mem _ (toLT c1) a hndL (toLT_mem hc1) (by rw [← leafIds_eq_leaves]; exact hla),
+                downL_of_mem _ (toLT c2) b hndL (toLT_mem hc2) (by rw [← leafIds_eq_leaves]; exact hlb), hx, hz]
+              rfl
+        · cases hpb
+      · cases hpa
+
+
+/-- a node on a root path: the rest of the path is its own root path; the entry before it is its parent -/
+theorem rootPath_suffix (x : Nat) : ∀ (k : Nat) (t : T) (top bot : List (Nat × Option Frac)) (j : Nat) (lj : Option Frac),
+    t.size ≤ k → rootPath x t = some (top ++ (j, lj) :: bot) →
+    ∃ c ∈ t.nodes, c.id = j ∧ c.len = lj ∧ rootPath x c = some ((j, lj) :: bot) ∧ (top = [] → c = t) ∧
+      (∀ top' f, top = top' ++ [f] → ∃ n ∈ t.nodes, n.id = f.1 ∧ c ∈ n.cs)
+  | 0, .node i y l s cs, _, _, _, _, hk, _ => by simp [T.size] at hk
+  | k + 1, .node i y l s cs, top, bot, j, lj, hk, h => by
+    cases top with
+    | nil =>
+      obtain ⟨⟨tl, htl⟩, _, _⟩ := rootPath_basic x (k + 1) _ _ hk h
+      simp only [List.nil_append, List.cons.injEq, Prod.mk.injEq] at htl
+      refine ⟨_, mem_nodes_self _, htl.1.1.symm, htl.1.2.symm, h, fun _ => rfl, ?_⟩
+      intro top' f e; simp at e
+    | cons f0 top2 =>
+      simp only [rootPath] at h
+      split at h
+      · simp at h
+      · split at h
+        · rename_i p' hp'
+          simp only [List.cons_append, Option.some.injEq, List.cons.injEq] at h
+          obtain ⟨hf0, hp⟩ := h
+          subst hp
+          obtain ⟨c', hc', hr'⟩ := rootPathL_find x cs _ hp'
+          have hsz : c'.size ≤ k := by have := size_lt_of_mem hc'; simp only [T.size] at hk; omega
+          obtain ⟨c, hcm, hcid, hclen, hrc, htop, hpar⟩ := rootPath_suffix x k c' top2 bot j lj hsz hr'
+          have hsub : ∀ n ∈ c'.nodes, n ∈ (T.node i y l s cs).nodes := fun n hn => by
+            simp only [T.nodes]; exact List.mem_cons_of_mem _ (mem_nodesL.mpr ⟨c', hc', hn⟩)
+          refine ⟨c, hsub c hcm, hcid, hclen, hrc, fun e => by simp at e, ?_⟩
+          intro top' f e
+          cases top' with
+          | nil =>
+            simp only [List.nil_append, List.cons.injEq] at e
+            obtain ⟨e1, e2⟩ := e
+            have : c = c' := htop e2
+            subst this
+            exact ⟨_, mem_nodes_self _, by rw [← e1, ← hf0]; rfl, hc'⟩
+          | cons g tl =>
+            simp only [List.cons_append, List.cons.injEq] at e
+            obtain ⟨n, hn, h1, h2⟩ := hpar tl f e.2
+            exact ⟨n, hsub n hn, h1, h2⟩
+        · cases h
+
+theorem upList_cons (m : Nat) (e : Nat × Option Frac) (q : List (Nat × Option Frac)) :
+    upList m (e :: q) = upList e.1 q ++ [(e.1, lenOr0 e.2, m)] := by
+  simp [upList]
+
+theorem toRat_lenOr0 (l : Option Frac) : (lenOr0 l).toRat = lenQ l := by
+  cases l with
+  | none => simp [lenOr0, lenQ, Frac.zero_toRat]
+  | some f => simp [lenOr0, lenQ, Frac.toRat]
+
+theorem wsum_append (a b : List (Nat × Frac × Nat)) : wsum (a ++ b) = wsum a + wsum b := by
+  simp [wsum]
+
+theorem wsum_upList : ∀ (q : List (Nat × Option Frac)) (m : Nat), wsum (upList m q) = sumQ q
+  | [], _ => by simp [upList, wsum, sumQ]
+  | e :: q, m => by
+    rw [upList_cons, wsum_append, wsum_upList q e.1]
+    simp [wsum, sumQ, toRat_lenOr0]; ring
+
+/-- position of a walk entry on the (top-down) path it was built from -/
+theorem upList_split : ∀ (q : List (Nat × Option Frac)) (m : Nat) (pre : List (Nat × Frac × Nat)) (x : Nat × Frac × Nat)
+    (post : List (Nat × Frac × Nat)), upList m q = pre ++ x :: post →
+    ∃ top lk bot, q = top ++ (x.1, lk) :: bot ∧ x.2.1 = lenOr0 lk ∧ wsum pre = sumQ bot ∧
+      ((top = [] ∧ x.2.2 = m) ∨ ∃ top' f, top = top' ++ [f] ∧ x.2.2 = f.1)
+  | [], _, pre, x, post, h => by simp [upList] at h
+  | e :: q, m, pre, x, post, h => by
+    rw [upList_cons] at h
+    rcases List.eq_nil_or_concat post with rfl | ⟨post', y, rfl⟩
+    · have := List.append_inj' h rfl
+      obtain ⟨h1, h2⟩ := this
+      simp only [List.cons.injEq, and_true] at h2
+      subst h2
+      refine ⟨[], e.2, q, rfl, rfl, ?_, Or.inl ⟨rfl, rfl⟩⟩
+      rw [← h1]; exact wsum_upList q e.1
+    · have h' : upList e.1 q ++ [(e.1, lenOr0 e.2, m)] = (pre ++ x :: post') ++ [y] := by
+        rw [h]; simp
+      obtain ⟨h1, _⟩ := List.append_inj' h' rfl
+      obtain ⟨top, lk, bot, hq, hl, hs, hp⟩ := upList_split q e.1 pre x post' h1
+      refine ⟨e :: top, lk, bot, by rw [hq]; rfl, hl, hs, Or.inr ?_⟩
+      rcases hp with ⟨ht, hx⟩ | ⟨top', f, ht, hx⟩
+      · exact ⟨[], e, by rw [ht]; rfl, hx⟩
+      · exact ⟨e :: top', f, by rw [ht]; rfl, hx⟩
+
+theorem lenOr0_wf {l : Option Frac} (h : OWF l) : (lenOr0 l).WF := by
+  cases l with
+  | none => exact Frac.zero_wf
+  | some f => exact h f rfl
+
+theorem foldl_pathSum : ∀ (p : List (Nat × Option Frac)) (acc : Frac), (∀ e ∈ p, OWF e.2) → acc.WF →
+    (p.foldl (fun acc e => acc + lenOr0 e.2) acc).WF ∧
+    (p.foldl (fun acc e => acc + lenOr0 e.2) acc).toRat = acc.toRat + sumQ p
+  | [], acc, _, ha => by simp [sumQ, ha]
+  | e :: p, acc, hp, ha => by
+    have he := lenOr0_wf (hp e (List.mem_cons_self ..))
+    obtain ⟨h1, h2⟩ := foldl_pathSum p (acc + lenOr0 e.2) (fun d hd => hp d (List.mem_cons_of_mem _ hd)) (Frac.add_wf _ _)
+    refine ⟨h1, ?_⟩
+    simp only [List.foldl_cons]
+    rw [h2, Frac.add_toRat ha he, toRat_lenOr0]
+    simp [sumQ]; ring
+
+theorem pathSum_spec (p : List (Nat × Option Frac)) (hp : ∀ e ∈ p, OWF e.2) :
+    (pathSum p).WF ∧ (pathSum p).toRat = sumQ p := by
+  have := foldl_pathSum p Frac.zero hp Frac.zero_wf
+  simpa [pathSum, Frac.zero_toRat] using this
+
+/-- a node that is somebody's child has a parent -/
+def HasChild (x : Nat) (t : T) : Prop := ∃ n ∈ t.nodes, ∃ c ∈ n.cs, c.id = x
+
+mutual
+theorem parentOf_isSome (x : Nat) : ∀ t : T, HasChild x t → (parentOf x t).isSome
+  | .node i y l s cs, h => by
+    simp only [parentOf]
+    apply parentOfL_isSome x i cs
+    obtain ⟨n, hn, c, hc, hcx⟩ := h
+    simp only [T.nodes, List.mem_cons] at hn
+    rcases hn with rfl | hn
+    · exact ⟨c, hc, Or.inl hcx⟩
+    · obtain ⟨d, hd, hnd⟩ := mem_nodesL.mp hn
+      exact ⟨d, hd, Or.inr ⟨n, hnd, c, hc, hcx⟩⟩
+theorem parentOfL_isSome (x : Nat) (p : Nat) : ∀ cs : List T, (∃ c ∈ cs, c.id = x ∨ HasChild x c) → (parentOfL x p cs).isSome
+  | [], h => by obtain ⟨c, hc, _⟩ := h; simp at hc
+  | c0 :: cs, h => by
+    simp only [parentOfL]
+    split
+    · rfl
+    · rename_i hne
+      by_cases h0 : HasChild x c0
+      · have := parentOf_isSome x c0 h0
+        obtain ⟨r, hr⟩ := Option.isSome_iff_exists.mp this
+        simp [hr]
+      · have h' : (∃ c ∈ cs, c.id = x ∨ HasChild x c) := by
+          obtain ⟨c, hc, hcx⟩ := h
+          rcases List.mem_cons.mp hc with rfl | hc'
+          · rcases hcx with hcx | hcx
+            · simp [hcx] at hne
+            · exact absurd hcx h0
+          · exact ⟨c, hc', hcx⟩
+        have ih := parentOfL_isSome x p cs h'
+        cases parentOf x c0 <;> simp [ih]
+end
+
+
+/-- a node of a tree with distinct ids: its ids are distinct, its leaves are the tree's leaves that occur in it -/
+theorem sub_facts : ∀ (k : Nat) (t c : T), t.size ≤ k → (idsOf t).Nodup → c ∈ t.nodes →
+    (idsOf c).Nodup ∧ (∀ a, a ∈ idsOf c → a ∈ leafIds t → a ∈ leafIds c) ∧ (∀ a, a ∈ leafIds c → a ∈ leafIds t) ∧
+    (∀ n ∈ c.nodes, n ∈ t.nodes)
+  | 0, .node i y l s cs, _, hk, _, _ => by simp [T.size] at hk
+  | k + 1, .node i y l s cs, c, hk, hids, hc => by
+    simp only [T.nodes, List.mem_cons] at hc
+    rcases hc with rfl | hc
+    · exact ⟨hids, fun _ _ h => h, fun _ h => h, fun _ h => h⟩
+    · obtain ⟨d, hd, hcd⟩ := mem_nodesL.mp hc
+      rw [idsOf_node] at hids
+      obtain ⟨hi, hidsL⟩ := List.nodup_cons.mp hids
+      have hsz : d.size ≤ k := by have := size_lt_of_mem hd; simp only [T.size] at hk; omega
+      obtain ⟨f1, f2, f3, f4⟩ := sub_facts k d c hsz (idsOf_child_nodup hidsL hd) hcd
+      have hne : cs ≠ [] := by intro e; subst e; simp at hd
+      refine ⟨f1, ?_, ?_, ?_⟩
+      · intro a ha hl
+        rw [leafIds_node_ne hne] at hl
+        have had : a ∈ idsOf d := by
+          obtain ⟨n, hn, rfl⟩ := List.mem_map.mp ha
+          exact mem_idsOf_of_mem_nodes (f4 n hn)
+        exact f2 a ha (leaf_in_child hidsL hd had hl)
+      · intro a ha
+        rw [leafIds_node_ne hne, leafIdsL_flat]
+        exact List.mem_flatMap.mpr ⟨d, hd, f3 a ha⟩
+      · intro n hn
+        simp only [T.nodes]; exact List.mem_cons_of_mem _ (mem_nodesL.mpr ⟨d, hd, f4 n hn⟩)
+
+theorem contains_of_mem : ∀ (k : Nat) (t n : T), t.size ≤ k → n ∈ t.nodes → contains n.id t = true
+  | 0, .node i y l s cs, _, hk, _ => by simp [T.size] at hk
+  | k + 1, .node i y l s cs, n, hk, hn => by
+    simp only [T.nodes, List.mem_cons] at hn
+    simp only [contains, Bool.or_eq_true]
+    rcases hn with rfl | hn
+    · left; simp [T.id]
+    · right
+      obtain ⟨d, hd, hnd⟩ := mem_nodesL.mp hn
+      have hsz : d.size ≤ k := by have := size_lt_of_mem hd; simp only [T.size] at hk; omega
+      exact containsL_of_mem n.id hd (contains_of_mem k d n hsz hnd)
+
+/-- the children of the new root after the inversions: the target's own children first -/
+theorem invertTo_cs (p : Nat) (t : T) (hids : (idsOf t).Nodup) (n : T) (hn : n ∈ t.nodes) (hnp : n.id = p) :
+    ∃ ups, (invertTo p t).cs = n.cs ++ ups := by
+  by_cases hroot : t.id = p
+  · have : n = t := List.inj_on_of_nodup_map hids hn (mem_nodes_self t) (hnp.trans hroot.symm)
+    subst this
+    cases n with
+    | node i y l s cs =>
+      simp only [T.id] at hroot
+      refine ⟨[], ?_⟩
+      simp [invertTo, inv, hroot, T.cs]
+  · have hc : contains p t = true := hnp ▸ contains_of_mem t.size t n (Nat.le_refl _) hn
+    obtain ⟨n', hn', hid', up, hcs, _⟩ := reseed_root_shape p t hroot hc
+    have hn'' : n' ∈ t.nodes := by
+      cases t with
+      | node i y l s cs => simp only [T.nodes, T.cs] at hn' ⊢; exact List.mem_cons_of_mem _ hn'
+    have : n' = n := List.inj_on_of_nodup_map hids hn'' hn (hid'.trans hnp.symm)
+    subst this
+    exact ⟨[up], hcs⟩
+
+theorem reseed_plain_eq (s : Bool) (tgt : Nat) (t : T) (hint : ∀ n ∈ t.nodes, n.id = tgt → n.cs ≠ []) :
+    (reseedAt none false s tgt t).1 = if s then sup (invertTo tgt t) else invertTo tgt t := by
+  simp only [reseedAt, cleanup, Bool.false_and, Bool.false_eq_true, if_false]
+  cases hf : T.find? tgt t with
+  | none => simp
+  | some n =>
+    obtain ⟨h1, h2'⟩ := find_mem tgt t n hf
+    have hne := hint n h1 h2'
+    have : n.cs.isEmpty = false := by
+      cases hcs : n.cs with
+      | nil => exact absurd hcs hne
+      | cons _ _ => rfl
+    simp [this]
+
+theorem rd_sup (s : Bool) (r0 : T) (h2 : 2 ≤ r0.cs.length) (hwf : LenWF r0) (a : Nat) :
+    rd (if s then sup r0 else r0) a = rd r0 a := by
+  cases s
+  · rfl
+  · cases r0 with
+    | node i y l st cs =>
+      match cs, h2 with
+      | c :: d :: cs', _ =>
+        simp only [if_true]
+        rw [sup_root_of_two]
+        have S := supL_inv (c :: d :: cs') (fun e he => lenWF_child hwf he)
+        simp only [rd, T.cs]
+        exact S.down a
+
+/-- the last step: a root child `c0` holding `n1` at half the distance of the pair, `n2` elsewhere -/
+theorem equidistant_of_sep (r0 c0 : T) (n1 n2 : Nat) (D v : ℚ) (hnd : (leafIds r0).Nodup) (hc : c0 ∈ r0.cs)
+    (hd : down (toLT c0) n1 = some v) (hn2 : n2 ∉ leafIds c0) (hn2r : n2 ∈ leafIds r0)
+    (hD : pathLen r0 n1 n2 = some D) (hv : v = D / 2) : rd r0 n1 = some (D / 2) ∧ rd r0 n2 = some (D / 2) := by
+  have hne : r0.cs ≠ [] := by intro e; rw [e] at hc; simp at hc
+  rw [leafIds_eq_LT r0 hne] at hnd hn2r
+  have h1 : n1 ∈ leaves (toLT c0) := mem_of_down_some hd
+  have hrd1 : rd r0 n1 = some v := by
+    simp only [rd]; rw [downL_of_mem _ (toLT c0) n1 hnd (toLT_mem hc) h1, hd]
+  obtain ⟨y, hy⟩ := get_down hn2r
+  have hsep := sep_of_nodup _ (toLT c0) n1 n2 hnd (toLT_mem hc) h1 (by rw [← leafIds_eq_leaves]; exact hn2)
+  simp only [pathLen] at hD
+  rw [distL_sep _ n1 n2 hsep] at hD
+  simp only [rd] at hrd1
+  rw [hrd1, hy] at hD
+  simp only [Option.bind_some, Option.map_some, Option.some.injEq] at hD
+  refine ⟨by simp only [rd]; rw [hrd1, hv], ?_⟩
+  simp only [rd]; rw [hy]; congr 1; rw [hv] at hD; linarith
+
+
+theorem child_mem_nodes {n c : T} (h : c ∈ n.cs) : c ∈ n.nodes := by
+  cases n with
+  | node i y l s cs =>
+    simp only [T.cs] at h
+    simp only [T.nodes]; exact List.mem_cons_of_mem _ (mem_nodesL.mpr ⟨c, h, mem_nodes_self c⟩)
+
+/-- what `rerootAtMidpoint` does with the answer of the walk -/
+def midResult (s : Bool) (nw : Nat) (t : T) : Mid → Option T
+  | .fail => none
+  | .onNode nd => some (reseedAt none false s nd t).1
+  | .onEdge h x => match t.find? h with
+    | none => none
+    | some hn => some (reseedAt none false s nw (splitEdge h nw (some (lenOr0 hn.len - x)) (some x) t)).1
+
+theorem rerootAtMidpoint_eq (s : Bool) (a b nw : Nat) (t : T) :
+    rerootAtMidpoint s a b nw t = (midResult s nw t (midpointOf a b t)).map (fun r => (r, some true)) := by
+  unfold rerootAtMidpoint
+  cases midpointOf a b t with
+  | fail => rfl
+  | onNode nd => rfl
+  | onEdge h x =>
+    simp only [midResult]
+    cases T.find? h t <;> rfl
+
+/-- the heart of clause (b): for the ordered pair `(n1, n2)` whose root paths the walk was run on -/
+theorem midpoint_core (s : Bool) (n1 n2 nw : Nat) (t : T) (P1 P2 : List (Nat × Option Frac))
+    (hne12 : n1 ≠ n2) (hP1 : rootPath n1 t = some P1) (hP2 : rootPath n2 t = some P2)
+    (hids : (idsOf t).Nodup) (hfresh : nw ∉ idsOf t) (h2 : 2 ≤ t.cs.length) (hwf : LenWF t)
+    (hl1 : n1 ∈ leafIds t) (hl2 : n2 ∈ leafIds t) (r : T)
+    (hr : midResult s nw t (midWalk (upList (dropCommon t.id P1 P2).1 (dropCommon t.id P1 P2).2.1)
+        (Frac.half (pathSum (dropCommon t.id P1 P2).2.1 + pathSum (dropCommon t.id P1 P2).2.2))) = some r) :
+    ∃ D, pathLen t n1 n2 = some D ∧ rd r n1 = some (D / 2) ∧ rd r n2 = some (D / 2) := by
+  obtain ⟨M, c1, c2, q1, q2, hd, F⟩ := mrca_spec n1 n2 hne12 t.size t P1 P2 t.id (Nat.le_refl _) hP1 hP2 hids hl1 hl2
+  rw [hd] at hr
+  simp only at hr
+  obtain ⟨pre0, hpre0, eP1, eP2⟩ := F.pre
+  obtain ⟨x, y, hx, hy, hdist⟩ := F.dist
+  obtain ⟨_, _, _, fM4⟩ := sub_facts t.size t M (Nat.le_refl _) hids F.memM
+  have hc1t : c1 ∈ t.nodes := fM4 c1 (child_mem_nodes F.mem1)
+  have hc2t : c2 ∈ t.nodes := fM4 c2 (child_mem_nodes F.mem2)
+  obtain ⟨g1, g2, g3, g4⟩ := sub_facts t.size t c1 (Nat.le_refl _) hids hc1t
+  obtain ⟨k1, _, _, _⟩ := sub_facts t.size t c2 (Nat.le_refl _) hids hc2t
+  have hx' : x = sumQ q1 := by
+    have := rootPath_down n1 c1.size c1 q1 (Nat.le_refl _) F.rp1 g1 F.la
+    rw [hx] at this; exact Option.some.inj this
+  have hy' : y = sumQ q2 := by
+    have := rootPath_down n2 c2.size c2 q2 (Nat.le_refl _) F.rp2 k1 F.lb
+    rw [hy] at this; exact Option.some.inj this
+  have hown : ∀ (P : List (Nat × Option Frac)) (n : Nat), rootPath n t = some P → ∀ e ∈ P, OWF e.2 := by
+    intro P n hP e he
+    obtain ⟨nn, hnn, _, hlen⟩ := (rootPath_basic n t.size t P (Nat.le_refl _) hP).2.2 e he
+    intro f hf; exact hwf nn hnn f (hlen.trans hf)
+  have ho1 : ∀ e ∈ q1, OWF e.2 := fun e he => hown P1 n1 hP1 e (by rw [eP1]; exact List.mem_append_right _ he)
+  have ho2 : ∀ e ∈ q2, OWF e.2 := fun e he => hown P2 n2 hP2 e (by rw [eP2]; exact List.mem_append_right _ he)
+  obtain ⟨w1, s1⟩ := pathSum_spec q1 ho1
+  obtain ⟨w2, s2⟩ := pathSum_spec q2 ho2
+  obtain ⟨plen, hplen⟩ : ∃ plen, plen = Frac.half (pathSum q1 + pathSum q2) := ⟨_, rfl⟩
+  rw [← hplen] at hr
+  have hpw : plen.WF := by rw [hplen]; exact Frac.half_wf _
+  have hpr : plen.toRat = (x + y) / 2 := by
+    rw [hplen, Frac.half_toRat (Frac.add_wf _ _), Frac.add_toRat w1 w2, s1, s2, hx', hy']
+  have hD : pathLen t n1 n2 = some (x + y) := by rw [pathLen_eq_dist]; exact hdist
+  refine ⟨x + y, hD, ?_⟩
+  have hww : ∀ e ∈ upList M.id q1, e.2.1.WF := by
+    intro e he
+    obtain ⟨pre, post, hw⟩ := List.append_of_mem he
+    obtain ⟨top, lk, bot, hq, hl, _, _⟩ := upList_split q1 M.id pre e post hw
+    rw [hl]; exact lenOr0_wf (ho1 (e.1, lk) (by rw [hq]; simp))
+  obtain ⟨spE, spN, _⟩ := midpoint_walk_spec (upList M.id q1) plen hww hpw
+  have hndt := leafIds_nodup_of_ids hids
+  -- the node of a walk entry
+  have key : ∀ pre e post, upList M.id q1 = pre ++ e :: post → ∃ c ∈ t.nodes, c.id = e.1 ∧
+      (∃ n ∈ t.nodes, n.id = e.2.2 ∧ c ∈ n.cs) ∧ down (toLT c) n1 = some (e.2.1.toRat + wsum pre) ∧ n2 ∉ leafIds c ∧
+      lenQ c.len = e.2.1.toRat := by
+    intro pre e post hw
+    obtain ⟨top, lk, bot, hq, hl, hs, hp⟩ := upList_split q1 M.id pre e post hw
+    obtain ⟨c, hcm, hcid, hclen, hrc, htop, hpar⟩ :=
+      rootPath_suffix n1 c1.size c1 top bot e.1 lk (Nat.le_refl _) (hq ▸ F.rp1)
+    have hct : c ∈ t.nodes := g4 c hcm
+    obtain ⟨u1, u2, u3, u4⟩ := sub_facts c1.size c1 c (Nat.le_refl _) g1 hcm
+    have hn1c : n1 ∈ leafIds c := u2 n1 (rootPath_basic n1 c.size c _ (Nat.le_refl _) hrc).2.1 F.la
+    have hdn := rootPath_down n1 c.size c _ (Nat.le_refl _) hrc u1 hn1c
+    refine ⟨c, hct, hcid, ?_, ?_, fun h => F.nb (u3 n2 h), ?_⟩
+    · rcases hp with ⟨ht, hx2⟩ | ⟨top', f, ht, hx2⟩
+      · have := htop ht; subst this; exact ⟨M, F.memM, hx2.symm, F.mem1⟩
+      · obtain ⟨n, hn, hnid, hcn⟩ := hpar top' f ht; exact ⟨n, g4 n hn, hnid.trans hx2.symm, hcn⟩
+    · rw [hdn, hl, toRat_lenOr0, hs]; simp [sumQ]
+    · rw [hclen, hl, toRat_lenOr0]
+  cases hmw : midWalk (upList M.id q1) plen with
+  | fail => rw [hmw] at hr; simp [midResult] at hr
+  | onNode nd =>
+    rw [hmw] at hr; simp only [midResult, Option.some.injEq] at hr
+    obtain ⟨pre, e, post, hw, hpar, hsum⟩ := spN nd hmw
+    obtain ⟨c, hct, hcid, ⟨n, hn, hnid, hcn⟩, hdn, hn2c, _⟩ := key pre e post hw
+    have hnne : n.cs ≠ [] := by intro e0; rw [e0] at hcn; simp at hcn
+    have hint := hint_of_ids hids hn (hnid.trans hpar) hnne
+    have hreach := invert_is_chain nd t hint h2
+    have K := reseed_invariant_full none false false nd t hint h2 hwf hndt
+    rw [reseed_plain_eq false nd t hint] at K
+    simp only [Bool.false_eq_true, if_false] at K
+    obtain ⟨ups, hcs⟩ := invertTo_cs nd t hids n hn (hnid.trans hpar)
+    have E := equidistant_of_sep (invertTo nd t) c n1 n2 (x + y) (e.2.1.toRat + wsum pre) (K.ids.nodup_iff.mpr hndt)
+      (by rw [hcs]; exact List.mem_append_left _ hcn) hdn hn2c (K.ids.mem_iff.mpr hl2)
+      (by rw [K.paths n1 n2 hl1 hl2]; exact hD) (by rw [← hpr, ← hsum]; ring)
+    rw [← hr, reseed_plain_eq s nd t hint,
+      rd_sup s _ (reach_two hreach h2) (reach_lenWF hreach hwf), rd_sup s _ (reach_two hreach h2) (reach_lenWF hreach hwf)]
+    exact E
+  | onEdge hh xx =>
+    rw [hmw] at hr; simp only [midResult] at hr
+    obtain ⟨pre, e, post, hw, hid, hsum, hlt⟩ := spE hh xx hmw
+    obtain ⟨c, hct, hcid, ⟨n, hn, hnid, hcn⟩, hdn, hn2c, hlc⟩ := key pre e post hw
+    have hxw : xx.WF := midWalk_wf _ _ hh xx hpw hmw
+    cases hfind : T.find? hh t with
+    | none => rw [hfind] at hr; simp at hr
+    | some hnode =>
+      rw [hfind] at hr; simp only [Option.some.injEq] at hr
+      obtain ⟨hnm, hnid'⟩ := find_mem hh t hnode hfind
+      have ehc : hnode = c := List.inj_on_of_nodup_map hids hnm hct (hnid'.trans (hcid.trans hid).symm)
+      subst ehc
+      obtain ⟨l1, hl1d⟩ : ∃ l1 : Option Frac, l1 = some (lenOr0 hnode.len - xx) := ⟨_, rfl⟩
+      obtain ⟨l2, hl2d⟩ : ∃ l2 : Option Frac, l2 = some xx := ⟨_, rfl⟩
+      rw [← hl1d, ← hl2d] at hr
+      have hl1w : OWF l1 := fun f hf => by rw [hl1d] at hf; cases hf; exact Frac.sub_wf _ _
+      have hl2w : OWF l2 := fun f hf => by rw [hl2d] at hf; cases hf; exact hxw
+      have hlw : (lenOr0 hnode.len).WF := lenOr0_wf (fun f hf => hwf hnode hnm f hf)
+      have hsum' : ∀ c' ∈ t.nodes, c'.id = hh → lenQ l1 + lenQ l2 = lenQ c'.len := by
+        intro c' hc' hc'id
+        have : c' = hnode := List.inj_on_of_nodup_map hids hc' hnm (hc'id.trans hnid'.symm)
+        subst this
+        rw [hl1d, hl2d]
+        have e1 : lenQ (some (lenOr0 c'.len - xx)) = (lenOr0 c'.len).toRat - xx.toRat := Frac.sub_toRat hlw hxw
+        rw [e1, toRat_lenOr0]; simp [lenQ, Frac.toRat]
+      obtain ⟨p, hp⟩ := Option.isSome_iff_exists.mp (parentOf_isSome hh t ⟨n, hn, hnode, hcn, hcid.trans hid⟩)
+      have K := reroot_at_edge_invariant false hh nw l1 l2 t hids hfresh h2 hwf hl1w hl2w hsum'
+      obtain ⟨_, c', hc'm, hc'id, up, hcs, _⟩ := reroot_at_edge_position_partial hh nw l1 l2 t p hfresh hp
+      have ec' : c' = hnode := List.inj_on_of_nodup_map hids hc'm hnm (hc'id.trans hnid'.symm)
+      subst ec'
+      have B := splitEdge_basic hh nw l1 l2 hl1w hl2w t.size t (Nat.le_refl _) hids hwf
+      have Fr := splitEdge_fresh hh nw l1 l2 t.size t (Nat.le_refl _) hfresh
+      obtain ⟨u, hu⟩ : ∃ u, u = splitEdge hh nw l1 l2 t := ⟨_, rfl⟩
+      rw [← hu] at B Fr hr
+      have hintu : ∀ n ∈ u.nodes, n.id = nw → n.cs ≠ [] := by
+        intro n hn hid
+        obtain ⟨c'', _, _, e⟩ := Fr.2 n hn hid
+        rw [e]; simp [T.cs]
+      have h2u : 2 ≤ u.cs.length := by rw [B.2]; exact h2
+      have hreach := invert_is_chain nw u hintu h2u
+      have e0 : (rerootAtEdge false hh nw l1 l2 t).1 = invertTo nw u := by
+        show (reseedAt none false false nw (splitEdge hh nw l1 l2 t)).1 = _
+        rw [← hu, reseed_plain_eq false nw u hintu]; simp
+      rw [e0] at K hcs
+      have hdn' : down (toLT (c'.withLen l2)) n1 = some (xx.toRat + wsum pre) := by
+        rw [down_withLen, hdn, hl2d, hlc]
+        simp only [Option.map_some, lenQ]
+        congr 1
+        show _ = xx.toRat + wsum pre
+        simp only [Frac.toRat]; ring
+      have E := equidistant_of_sep (invertTo nw u) (c'.withLen l2) n1 n2 (x + y) (xx.toRat + wsum pre)
+        (K.ids.nodup_iff.mpr hndt) (by rw [hcs]; simp) hdn' (by rw [leafIds_withLen]; exact hn2c) (K.ids.mem_iff.mpr hl2)
+        (by rw [K.paths n1 n2 hl1 hl2]; exact hD) (by rw [← hpr, ← hsum]; ring)
+      rw [← hr, reseed_plain_eq s nw u hintu,
+        rd_sup s _ (reach_two hreach h2u) (reach_lenWF hreach B.1), rd_sup s _ (reach_two hreach h2u) (reach_lenWF hreach B.1)]
+      exact E
+
+
+/-- `midpointOf` is the walk on the root paths of the pair, in one of the two orders -/
+theorem midpointOf_eq (a b : Nat) (t : T) (hmid : midpointOf a b t ≠ .fail) (hab : a ≠ b) :
+    ∃ n1 n2 P1 P2, ((n1 = a ∧ n2 = b) ∨ (n1 = b ∧ n2 = a)) ∧ rootPath n1 t = some P1 ∧ rootPath n2 t = some P2 ∧
+      midpointOf a b t = midWalk (upList (dropCommon t.id P1 P2).1 (dropCommon t.id P1 P2).2.1)
+        (Frac.half (pathSum (dropCommon t.id P1 P2).2.1 + pathSum (dropCommon t.id P1 P2).2.2)) := by
+  unfold midpointOf at hmid ⊢
+  cases hf : firstLeafOf a b t with
+  | none => simp [hf] at hmid
+  | some s0 =>
+    simp only [hf] at hmid ⊢
+    have hs0 : s0 = a ∨ s0 = b := by
+      have := List.find?_some hf
+      simpa using this
+    cases hp0 : rootPath s0 t with
+    | none => rw [hp0] at hmid; exact absurd rfl hmid
+    | some p0 =>
+      cases hp1 : rootPath (if (s0 == a) = true then b else a) t with
+      | none => rw [hp0, hp1] at hmid; exact absurd rfl hmid
+      | some p1 =>
+        simp only [hp0, hp1]
+        have hs1 : ((s0 = a ∧ (if (s0 == a) = true then b else a) = b) ∨ (s0 = b ∧ (if (s0 == a) = true then b else a) = a)) := by
+          rcases hs0 with rfl | rfl
+          · left; simp
+          · right
+            have : (s0 == a) = false := by simpa using fun e : s0 = a => hab e.symm
+            simp [this]
+        by_cases hc : Frac.lt (pathSum (p0.drop 1)) (pathSum (p1.drop 1)) = true
+        · refine ⟨_, s0, p1, p0, ?_, hp1, hp0, ?_⟩
+          · rcases hs1 with ⟨h1, h2⟩ | ⟨h1, h2⟩
+            · exact Or.inr ⟨h2, h1⟩
+            · exact Or.inl ⟨h2, h1⟩
+          · simp only [hc, if_true]
+        · refine ⟨s0, _, p0, p1, hs1, hp0, hp1, ?_⟩
+          simp only [hc, Bool.false_eq_true, if_false]
+
+end DendroModel.C07.Aux
+
+namespace DendroModel.C07
+open DendroModel DendroModel.C07.Aux DendroModel.C07.Path
+
+/-- **clause (b), equidistance, every case:** after `reroot_at_midpoint` was handed the pair `(a, b)` of leaves, BOTH leaves are at
+    exactly half their path length from the new root — over exact fractions, whether the midpoint falls inside an edge or exactly
+    on an existing node (the branch the library got wrong), under any ties, with and without unifurcation suppression, for every
+    tree with distinct node ids, a seed with ≥ 2 children and well-formed fractions (no sign condition on the lengths).
+    Nothing about the walk is assumed: `rootPath`/`dropCommon`/`upList`/`midWalk` are tied to `Path.dist` here. -/
+theorem midpoint_equidistant (s : Bool) (a b nw : Nat) (t : T) (r : T × Option Bool)
+    (h : rerootAtMidpoint s a b nw t = some r)
+    (hids : (idsOf t).Nodup) (hfresh : nw ∉ idsOf t) (h2 : 2 ≤ t.cs.length) (hwf : LenWF t)
+    (ha : a ∈ leafIds t) (hb : b ∈ leafIds t) (hab : a ≠ b) :
+    ∃ D, pathLen t a b = some D ∧ rd r.1 a = some (D / 2) ∧ rd r.1 b = some (D / 2) := by
+  rw [rerootAtMidpoint_eq] at h
+  cases hm : midResult s nw t (midpointOf a b t) with
+  | none => rw [hm] at h; simp at h
+  | some r0 =>
+    rw [hm] at h
+    simp only [Option.map_some, Option.some.injEq] at h
+    subst h
+    have hmid : midpointOf a b t ≠ .fail := by intro e; rw [e] at hm; simp [midResult] at hm
+    obtain ⟨n1, n2, P1, P2, hor, hP1, hP2, heq⟩ := midpointOf_eq a b t hmid hab
+    rw [heq] at hm
+    rcases hor with ⟨rfl, rfl⟩ | ⟨rfl, rfl⟩
+    · exact midpoint_core s n1 n2 nw t P1 P2 hab hP1 hP2 hids hfresh h2 hwf ha hb r0 hm
+    · obtain ⟨D, hD, h1, h2'⟩ := midpoint_core s n1 n2 nw t P1 P2 (Ne.symm hab) hP1 hP2 hids hfresh h2 hwf hb ha r0 hm
+      refine ⟨D, ?_, h2', h1⟩
+      rw [pathLen_eq_dist, dist_comm, ← pathLen_eq_dist]; exact hD
+
+/-- **clause (b) as the statement words it:** if the pair handed to `reroot_at_midpoint` is a pair of most distant leaves of the
+    tree, then after the operation it still is a pair of most distant leaves (all path lengths are kept) and both are at half
+    that maximal distance from the new root. -/
+theorem midpoint_most_distant_pair_equidistant (s : Bool) (a b nw : Nat) (t : T) (r : T × Option Bool)
+    (h : rerootAtMidpoint s a b nw t = some r)
+    (hids : (idsOf t).Nodup) (hfresh : nw ∉ idsOf t) (h2 : 2 ≤ t.cs.length) (hwf : LenWF t)
+    (ha : a ∈ leafIds t) (hb : b ∈ leafIds t) (hab : a ≠ b)
+    (hmax : ∀ c d, c ∈ leafIds t → d ∈ leafIds t → ∀ D D', pathLen t a b = some D → pathLen t c d = some D' → D' ≤ D) :
+    ∃ D, pathLen r.1 a b = some D ∧
+      (∀ c d, c ∈ leafIds r.1 → d ∈ leafIds r.1 → ∀ D', pathLen r.1 c d = some D' → D' ≤ D) ∧
+      rd r.1 a = some (D / 2) ∧ rd r.1 b = some (D / 2) := by
+  have K := reroot_at_midpoint_invariant s a b nw t r h hids hfresh h2 hwf
+  obtain ⟨D, hD, h1, h2'⟩ := midpoint_equidistant s a b nw t r h hids hfresh h2 hwf ha hb hab
+  refine ⟨D, by rw [K.paths a b ha hb]; exact hD, ?_, h1, h2'⟩
+  intro c d hc hd D' hD'
+  have hc' := K.ids.mem_iff.mp hc
+  have hd' := K.ids.mem_iff.mp hd
+  rw [K.paths c d hc' hd'] at hD'
+  exact hmax c d hc' hd' D D' hD hD'
+
+end DendroModel.C07
+
+namespace DendroModel.C07
+open DendroModel DendroModel.C07.Aux DendroModel.C07.Path
+
+/-- `((A:1,B:1):1,(C:1,D:1):1)`: the midpoint of A–C is exactly the seed -/
+def exTree2 : T :=
+  .node 0 none none none
+    [.node 1 none (some ⟨1, 1⟩) none [.node 2 (some 0) (some ⟨1, 1⟩) none [], .node 3 (some 1) (some ⟨1, 1⟩) none []],
+     .node 4 none (some ⟨1, 1⟩) none [.node 5 (some 2) (some ⟨1, 1⟩) none [], .node 6 (some 3) (some ⟨1, 1⟩) none []]]
+
+/-- the hypotheses of `midpoint_equidistant` hold on the on-node case (midpoint = the seed, ties everywhere) ... -/
+example : ∃ r, rerootAtMidpoint true 2 5 7 exTree2 = some r ∧ (idsOf exTree2).Nodup ∧ 7 ∉ idsOf exTree2 ∧
+    2 ≤ exTree2.cs.length ∧ 2 ∈ leafIds exTree2 ∧ 5 ∈ leafIds exTree2 :=
+  ⟨_, rfl, by decide, by decide, by decide, by decide, by decide⟩
+/-- ... and on the in-edge case (`exTree`: A–C = 4, the midpoint lies inside C's edge) -/
+example : ∃ r, rerootAtMidpoint true 2 4 5 exTree = some r ∧ 2 ∈ leafIds exTree ∧ 4 ∈ leafIds exTree ∧ pathLen exTree 2 4 = some 4 :=
+  ⟨_, rfl, by decide, by decide, by
+    simp [pathLen, exTree, T.cs, toLTL, toLT, distL, Path.dist, down, downL, lenQ]; norm_num⟩
+
+/-- `Tree.suppress_unifurcations` on its own keeps the leaves, the total length and every path length (any tree, unary seed
+    included: the seed's own length moves to the child that replaces it) -/
+theorem suppress_unifurcations_invariant (t : T) (hwf : LenWF t) : Keeps t (sup t) := by
+  have S := sup_inv t hwf
+  refine ⟨by rw [leafIds_eq_leaves, leafIds_eq_leaves, S.leaves], S.total, fun a b _ _ => ?_⟩
+  rw [pathLen_eq_dist, pathLen_eq_dist, S.dist]
+
+/-- `Tree.collapse_basal_bifurcation` on its own keeps the leaves, the total length and every path length -/
+theorem collapse_basal_invariant (t : T) (hwf : LenWF t) (hnd : (leafIds t).Nodup) : Keeps t (collapseBasal t) := by
+  have C := collapse_inv t hwf hnd
+  exact ⟨by rw [C.ids], C.total, fun a b _ _ => C.paths a b⟩
+
+example : LenWF exTree ∧ (leafIds exTree).Nodup ∧ (collapseBasal exTree).cs.length = 3 := by
+  refine ⟨?_, by decide, by decide⟩
+  intro n hn f hf
+  simp [exTree, T.nodes, T.nodesL] at hn
+  rcases hn with rfl | rfl | rfl | rfl | rfl <;> simp [T.len] at hf <;> subst hf <;> decide
+
+end DendroModel.C07
+
+namespace DendroModel.C07.Aux
+open DendroModel DendroModel.C07 DendroModel.C07.Path
+
+/-! ### the walk never gives up -/
+
+theorem rootPathL_some_of (x : Nat) : ∀ (cs : List T) (c : T) (p : List (Nat × Option Frac)), c ∈ cs → rootPath x c = some p →
+    ∃ p', rootPathL x cs = some p'
+  | [], _, _, hc, _ => by simp at hc
+  | c0 :: cs, c, p, hc, hp => by
+    simp only [rootPathL]
+    cases h0 : rootPath x c0 with
+    | some p0 => exact ⟨p0, rfl⟩
+    | none =>
+      rcases List.mem_cons.mp hc with rfl | hc'
+      · rw [hp] at h0; cases h0
+      · exact rootPathL_some_of x cs c p hc' hp
+
+theorem rootPath_some_of_mem (x : Nat) : ∀ (k : Nat) (t : T), t.size ≤ k → x ∈ idsOf t → ∃ p, rootPath x t = some p
+  | 0, .node i y l s cs, hk, _ => by simp [T.size] at hk
+  | k + 1, .node i y l s cs, hk, hx => by
+    simp only [rootPath]
+    by_cases hi : (i == x) = true
+    · simp [hi]
+    · rw [idsOf_node] at hx
+      have hx' : x ∈ idsOfL cs := by
+        rcases List.mem_cons.mp hx with rfl | h
+        · simp at hi
+        · exact h
+      rw [idsOfL_flat] at hx'
+      obtain ⟨c, hc, hxc⟩ := List.mem_flatMap.mp hx'
+      have hsz : c.size ≤ k := by have := size_lt_of_mem hc; simp only [T.size] at hk; omega
+      obtain ⟨p, hp⟩ := rootPath_some_of_mem x k c hsz hxc
+      obtain ⟨p', hp'⟩ := rootPathL_some_of x cs c p hc hp
+      refine ⟨(i, l) :: p', ?_⟩
+      simp [hi, hp']
+
+theorem find_some_of_mem : ∀ (k : Nat) (t n : T), t.size ≤ k → n ∈ t.nodes → ∃ m, T.find? n.id t = some m
+  | 0, .node i y l s cs, _, hk, _ => by simp [T.size] at hk
+  | k + 1, .node i y l s cs, n, hk, hn => by
+    simp only [T.find?]
+    by_cases hi : (n.id == i) = true
+    · simp [hi]
+    · simp only [hi, if_false]
+      simp only [T.nodes, List.mem_cons] at hn
+      rcases hn with rfl | hn
+      · simp [T.id] at hi
+      · obtain ⟨d, hd, hnd⟩ := mem_nodesL.mp hn
+        have hsz : d.size ≤ k := by have := size_lt_of_mem hd; simp only [T.size] at hk; omega
+        obtain ⟨m, hm⟩ := find_some_of_mem k d n hsz hnd
+        -- the first child in which it is found
+        have : ∀ (ds : List T), d ∈ ds → ∃ m', T.findL? n.id ds = some m' := by
+          intro ds
+          induction ds with
+          | nil => intro h; simp at h
+          | cons d0 ds ih =>
+            intro h
+            simp only [T.findL?]
+            cases h0 : T.find? n.id d0 with
+            | some m0 => exact ⟨m0, rfl⟩
+            | none =>
+              rcases List.mem_cons.mp h with rfl | h'
+              · rw [hm] at h0; cases h0
+              · exact ih h'
+        exact this cs hd
+
+theorem sumQ_append (p q : List (Nat × Option Frac)) : sumQ (p ++ q) = sumQ p + sumQ q := by
+  simp [sumQ]
+
+theorem frac_lt_asymm' (a b : Frac) (h1 : Frac.lt a b = true) : Frac.lt b a = false := by
+  cases h2 : Frac.lt b a with
+  | false => rfl
+  | true =>
+    simp only [Frac.lt, decide_eq_true_eq] at h1 h2
+    exact absurd h1 (not_lt.mpr (le_of_lt h2))
+
+/-- `midpointOf` is the walk on the root paths of the pair, started from the leaf that is at least as far from the seed -/
+theorem midpointOf_eq2 (a b : Nat) (t : T) (ha : a ∈ leafIds t) (hb : b ∈ leafIds t) (hab : a ≠ b) :
+    ∃ n1 n2 P1 P2, ((n1 = a ∧ n2 = b) ∨ (n1 = b ∧ n2 = a)) ∧ rootPath n1 t = some P1 ∧ rootPath n2 t = some P2 ∧
+      Frac.lt (pathSum (P1.drop 1)) (pathSum (P2.drop 1)) = false ∧
+      midpointOf a b t = midWalk (upList (dropCommon t.id P1 P2).1 (dropCommon t.id P1 P2).2.1)
+        (Frac.half (pathSum (dropCommon t.id P1 P2).2.1 + pathSum (dropCommon t.id P1 P2).2.2)) := by
+  obtain ⟨pa, hpa⟩ := rootPath_some_of_mem a t.size t (Nat.le_refl _) (leafIds_sub_ids t a ha)
+  obtain ⟨pb, hpb⟩ := rootPath_some_of_mem b t.size t (Nat.le_refl _) (leafIds_sub_ids t b hb)
+  unfold midpointOf
+  cases hf : firstLeafOf a b t with
+  | none =>
+    have := List.find?_eq_none.mp hf a ha
+    simp at this
+  | some s0 =>
+    simp only [hf]
+    have hs0 : s0 = a ∨ s0 = b := by
+      have := List.find?_some hf
+      simpa using this
+    have hs1 : ((s0 = a ∧ (if (s0 == a) = true then b else a) = b) ∨ (s0 = b ∧ (if (s0 == a) = true then b else a) = a)) := by
+      rcases hs0 with rfl | rfl
+      · left; simp
+      · right
+        have : (s0 == a) = false := by simpa using fun e : s0 = a => hab e.symm
+        simp [this]
+    obtain ⟨p0, hp0⟩ : ∃ p0, rootPath s0 t = some p0 := by
+      rcases hs0 with rfl | rfl
+      · exact ⟨pa, hpa⟩
+      · exact ⟨pb, hpb⟩
+    obtain ⟨p1, hp1⟩ : ∃ p1, rootPath (if (s0 == a) = true then b else a) t = some p1 := by
+      rcases hs1 with ⟨_, h⟩ | ⟨_, h⟩
+      · rw [h]; exact ⟨pb, hpb⟩
+      · rw [h]; exact ⟨pa, hpa⟩
+    simp only [hp0, hp1]
+    by_cases hc : Frac.lt (pathSum (p0.drop 1)) (pathSum (p1.drop 1)) = true
+    · refine ⟨_, s0, p1, p0, ?_, hp1, hp0, frac_lt_asymm' _ _ hc, ?_⟩
+      · rcases hs1 with ⟨h1, h2⟩ | ⟨h1, h2⟩
+        · exact Or.inr ⟨h2, h1⟩
+        · exact Or.inl ⟨h2, h1⟩
+      · simp only [hc, if_true]
+    · refine ⟨s0, _, p0, p1, hs1, hp0, hp1, by simpa using hc, ?_⟩
+      simp only [hc, Bool.false_eq_true, if_false]
+
+end DendroModel.C07.Aux
+
+namespace DendroModel.C07
+open DendroModel DendroModel.C07.Aux DendroModel.C07.Path
+
+/-- **the walk of `reroot_at_midpoint` never gives up** (the library's `assert break_on_node is not None or target_edge is not
+    None` cannot fire, the model never answers `fail`): for two different leaves of a tree with distinct node ids and
+    well-formed fractions — any lengths, negative ones included: starting from the leaf at least as far from the seed, the
+    lengths up to the MRCA sum to at least half the distance of the pair. -/
+theorem midpoint_never_fails (a b : Nat) (t : T) (hids : (idsOf t).Nodup) (hwf : LenWF t)
+    (ha : a ∈ leafIds t) (hb : b ∈ leafIds t) (hab : a ≠ b) : midpointOf a b t ≠ .fail := by
+  obtain ⟨n1, n2, P1, P2, hor, hP1, hP2, hdeep, heq⟩ := midpointOf_eq2 a b t ha hb hab
+  have hl : n1 ∈ leafIds t ∧ n2 ∈ leafIds t ∧ n1 ≠ n2 := by
+    rcases hor with ⟨rfl, rfl⟩ | ⟨rfl, rfl⟩
+    · exact ⟨ha, hb, hab⟩
+    · exact ⟨hb, ha, Ne.symm hab⟩
+  obtain ⟨hl1, hl2, hne12⟩ := hl
+  rw [heq]
+  obtain ⟨M, c1, c2, q1, q2, hd, F⟩ := mrca_spec n1 n2 hne12 t.size t P1 P2 t.id (Nat.le_refl _) hP1 hP2 hids hl1 hl2
+  rw [hd]
+  simp only
+  obtain ⟨pre0, hpre0, eP1, eP2⟩ := F.pre
+  have hown : ∀ (P : List (Nat × Option Frac)) (n : Nat), rootPath n t = some P → ∀ e ∈ P, OWF e.2 := by
+    intro P n hP e he
+    obtain ⟨nn, hnn, _, hlen⟩ := (rootPath_basic n t.size t P (Nat.le_refl _) hP).2.2 e he
+    intro f hf; exact hwf nn hnn f (hlen.trans hf)
+  have ho1 : ∀ e ∈ q1, OWF e.2 := fun e he => hown P1 n1 hP1 e (by rw [eP1]; exact List.mem_append_right _ he)
+  have ho2 : ∀ e ∈ q2, OWF e.2 := fun e he => hown P2 n2 hP2 e (by rw [eP2]; exact List.mem_append_right _ he)
+  obtain ⟨w1, s1⟩ := pathSum_spec q1 ho1
+  obtain ⟨w2, s2⟩ := pathSum_spec q2 ho2
+  obtain ⟨wd1, sd1⟩ := pathSum_spec (P1.drop 1) (fun e he => hown P1 n1 hP1 e (List.mem_of_mem_drop he))
+  obtain ⟨wd2, sd2⟩ := pathSum_spec (P2.drop 1) (fun e he => hown P2 n2 hP2 e (List.mem_of_mem_drop he))
+  have hdrop : ∀ q : List (Nat × Option Frac), (pre0 ++ q).drop 1 = pre0.drop 1 ++ q := by
+    intro q
+    cases pre0 with
+    | nil => exact absurd rfl hpre0
+    | cons e tl => simp
+  have hge : sumQ q2 ≤ sumQ q1 := by
+    have := (Frac.lt_false_iff wd1 wd2).mp hdeep
+    rw [sd1, sd2, eP1, eP2, hdrop, hdrop, sumQ_append, sumQ_append] at this
+    linarith
+  have hpw : (Frac.half (pathSum q1 + pathSum q2)).WF := Frac.half_wf _
+  have hpr : (Frac.half (pathSum q1 + pathSum q2)).toRat = (sumQ q1 + sumQ q2) / 2 := by
+    rw [Frac.half_toRat (Frac.add_wf _ _), Frac.add_toRat w1 w2, s1, s2]
+  have hww : ∀ e ∈ upList M.id q1, e.2.1.WF := by
+    intro e he
+    obtain ⟨pre, post, hw⟩ := List.append_of_mem he
+    obtain ⟨top, lk, bot, hq, hl, _, _⟩ := upList_split q1 M.id pre e post hw
+    rw [hl]; exact lenOr0_wf (ho1 (e.1, lk) (by rw [hq]; simp))
+  obtain ⟨_, _, spF⟩ := midpoint_walk_spec (upList M.id q1) _ hww hpw
+  intro hfail
+  rcases spF hfail with h0 | h0
+  · obtain ⟨⟨tl, htl⟩, _, _⟩ := rootPath_basic n1 c1.size c1 q1 (Nat.le_refl _) F.rp1
+    rw [htl, upList_cons] at h0
+    simp at h0
+  · rw [wsum_upList, hpr] at h0
+    linarith
+
+/-- **`reroot_at_midpoint` always answers** for two different leaves (the model's `none`, which the driver prints as
+    `AssertionError`, is unreachable on such input): with `midpoint_equidistant` the result is a tree in which both leaves are at
+    half their distance from the root. -/
+theorem reroot_at_midpoint_defined (s : Bool) (a b nw : Nat) (t : T) (hids : (idsOf t).Nodup) (hwf : LenWF t)
+    (ha : a ∈ leafIds t) (hb : b ∈ leafIds t) (hab : a ≠ b) : (rerootAtMidpoint s a b nw t).isSome := by
+  have hnf := midpoint_never_fails a b t hids hwf ha hb hab
+  rw [rerootAtMidpoint_eq]
+  cases hm : midpointOf a b t with
+  | fail => exact absurd hm hnf
+  | onNode nd => simp [midResult]
+  | onEdge h x =>
+    -- the head of the edge is a node of the tree
+    obtain ⟨n1, n2, P1, P2, _, hP1, _, _, heq⟩ := midpointOf_eq2 a b t ha hb hab
+    rw [heq] at hm
+    have hmem : ∀ (w : List (Nat × Frac × Nat)) (plen : Frac), midWalk w plen = .onEdge h x → ∃ e ∈ w, e.1 = h := by
+      intro w
+      induction w with
+      | nil => intro plen hh; simp [midWalk] at hh
+      | cons e w ih =>
+        intro plen hh
+        obtain ⟨nd, l, par⟩ := e
+        simp only [midWalk] at hh
+        split at hh
+        · cases hh; exact ⟨_, List.mem_cons_self .., rfl⟩
+        · split at hh
+          · obtain ⟨e', he', h'⟩ := ih _ hh; exact ⟨e', List.mem_cons_of_mem _ he', h'⟩
+          · cases hh
+    obtain ⟨e, he, heh⟩ := hmem _ _ hm
+    obtain ⟨pre, post, hw⟩ := List.append_of_mem he
+    obtain ⟨top, lk, bot, hq, _, _, _⟩ := upList_split _ _ pre e post hw
+    obtain ⟨pre0, hp0, _⟩ := dropCommon_spec P1 P2 t.id
+    have hin : (e.1, lk) ∈ P1 := by rw [hp0, hq]; simp
+    obtain ⟨nn, hnn, hnid, _⟩ := (rootPath_basic n1 t.size t P1 (Nat.le_refl _) hP1).2.2 _ hin
+    obtain ⟨m, hm'⟩ := find_some_of_mem t.size t nn (Nat.le_refl _) hnn
+    simp only [midResult]
+    rw [← heh, ← hnid, hm']
+    simp
+
+example : (rerootAtMidpoint true 2 5 7 exTree2).isSome :=
+  reroot_at_midpoint_defined true 2 5 7 exTree2 (by decide)
+    (by
+      intro n hn f hf
+      simp [exTree2, T.nodes, T.nodesL] at hn
+      rcases hn with rfl | rfl | rfl | rfl | rfl | rfl | rfl <;> simp [T.len] at hf <;> subst hf <;> decide)
+    (by decide) (by decide) (by decide)
+
+end DendroModel.C07
+
+namespace DendroModel.C07.Aux
+open DendroModel DendroModel.C07 DendroModel.C07.Path
+
+mutual
+theorem parentOf_child (og : Nat) : ∀ (t : T) (p : Nat), parentOf og t = some p →
+    ∃ m ∈ t.nodes, m.id = p ∧ ∃ c ∈ m.cs, c.id = og
+  | .node i x l s cs, p, h => by
+    simp only [parentOf] at h
+    rcases parentOfL_child og i cs p h with ⟨hp, c, hc, hcid⟩ | ⟨m, hm, h1, h2⟩
+    · exact ⟨.node i x l s cs, mem_nodes_self _, by simpa [T.id] using hp.symm, c, by simpa [T.cs] using hc, hcid⟩
+    · exact ⟨m, by simp only [T.nodes]; exact List.mem_cons_of_mem _ hm, h1, h2⟩
+theorem parentOfL_child (og : Nat) (q : Nat) : ∀ (cs : List T) (p : Nat), parentOfL og q cs = some p →
+    (p = q ∧ ∃ c ∈ cs, c.id = og) ∨ ∃ m ∈ T.nodesL cs, m.id = p ∧ ∃ c ∈ m.cs, c.id = og
+  | [], _, h => by simp [parentOfL] at h
+  | c :: cs, p, h => by
+    simp only [parentOfL] at h
+    split at h
+    · rename_i hcid
+      cases h; exact Or.inl ⟨rfl, c, List.mem_cons_self .., by simpa using hcid⟩
+    · split at h
+      · rename_i r hr
+        cases h
+        obtain ⟨m, hm, h1, h2⟩ := parentOf_child og c p hr
+        exact Or.inr ⟨m, by simp only [T.nodesL]; exact List.mem_append_left _ hm, h1, h2⟩
+      · rcases parentOfL_child og q cs p h with ⟨hp, d, hd, hdid⟩ | ⟨m, hm, h1, h2⟩
+        · exact Or.inl ⟨hp, d, List.mem_cons_of_mem _ hd, hdid⟩
+        · exact Or.inr ⟨m, by simp only [T.nodesL]; exact List.mem_append_right _ hm, h1, h2⟩
+end
+
+end DendroModel.C07.Aux
+
+namespace DendroModel.C07
+open DendroModel DendroModel.C07.Aux DendroModel.C07.Path
+
+/-- **clause (d), full, with the default `suppress_unifurcations=True` and without:** after `to_outgroup_position(og)` the FIRST
+    child of the root spans exactly the leaves of the outgroup — of the node `c` with id `og` of the ORIGINAL tree `t` — for
+    every rooting flag (with suppression a unary outgroup node may be replaced by its descendant in the same position, hence the
+    leaf-set form; the node-identity form for suppression off is `outgroup_first`).  Distinct node ids, seed with ≥ 2
+    children, well-formed fractions. -/
+theorem outgroup_first_leafset (flag : Option Bool) (suppress : Bool) (og : Nat) (t : T) (r : T × Option Bool)
+    (h : toOutgroup flag suppress og t = some r) (hids : (idsOf t).Nodup) (h2 : 2 ≤ t.cs.length) (hwf : LenWF t) :
+    ∃ c ∈ t.nodes, c.id = og ∧ ∃ first rest, r.1.cs = first :: rest ∧ leafIds first = leafIds c := by
+  obtain ⟨p, o, hp, ho, hoid, first, rest, hcs, hl⟩ := outgroup_first_leafset_in_reseeded flag suppress og t r h hids h2 hwf
+  obtain ⟨m, hm, hmp, c, hc, hcid⟩ := parentOf_child og t p hp
+  have hmne : m.cs ≠ [] := by intro e; rw [e] at hc; simp at hc
+  have hr := invert_is_chain p t (hint_of_ids hids hm hmp hmne) h2
+  have hids2 : (idsOf (invertTo p t)).Nodup := (reach_ids hr).nodup_iff.mpr hids
+  obtain ⟨ups, hups⟩ := invertTo_cs p t hids m hm hmp
+  have hc2 : c ∈ (invertTo p t).cs := by rw [hups]; exact List.mem_append_left _ hc
+  have hchild : ((invertTo p t).cs.map T.id).Nodup := by
+    cases hi : invertTo p t with
+    | node i x l s cs =>
+      rw [hi, idsOf_node] at hids2
+      exact (childIds_sublist cs).nodup (List.nodup_cons.mp hids2).2
+  have : o = c := List.inj_on_of_nodup_map hchild ho hc2 (hoid.trans hcid.symm)
+  subst this
+  obtain ⟨_, _, _, f4⟩ := sub_facts t.size t m (Nat.le_refl _) hids hm
+  exact ⟨o, f4 o (child_mem_nodes hc), hoid, first, rest, hcs, hl⟩
+
+example : ∃ r, toOutgroup (some false) true 4 exTree = some r ∧ (idsOf exTree).Nodup ∧ 2 ≤ exTree.cs.length :=
+  ⟨_, rfl, by decide, by decide⟩
+
+end DendroModel.C07
+
+namespace DendroModel.C07.Aux
+open DendroModel DendroModel.C07
+
+theorem frac_lt_asymm (a b : Frac) (h1 : Frac.lt a b = true) (h2 : Frac.lt b a = true) : False := by
+  simp only [Frac.lt, decide_eq_true_eq] at h1 h2
+  exact absurd h1 (not_lt.mpr (le_of_lt h2))
+
+theorem frac_mul_def (a b : Frac) : a * b = Frac.mul a b := rfl
+
+theorem frac_le_eq (a b : Frac) : Frac.le a b = !Frac.lt b a := by
+  simp only [Frac.le, Frac.lt]
+  by_cases h : a.num * (b.den : Int) ≤ b.num * (a.den : Int)
+  · simp [h, not_lt.mpr h]
+  · simp [h, not_le.mp h]
+
+theorem frac_beq_eq (a b : Frac) : Frac.beq a b = (!Frac.lt a b && !Frac.lt b a) := by
+  simp only [Frac.beq, Frac.lt]
+  rcases lt_trichotomy (a.num * (b.den : Int)) (b.num * (a.den : Int)) with h | h | h
+  · simp [h, ne_of_lt h]
+  · simp [h]
+  · simp [h, ne_of_gt h, not_lt.mpr (le_of_lt h)]
+
+end DendroModel.C07.Aux
+
+namespace DendroModel.C07
+open DendroModel DendroModel.C07.Aux
+
+/-! ## tie A: the kernels regenerated from the source (`Gen/C07Mid.lean`) are the model's -/
+
+/-- `_edge_len` of the source = `lenOr0` of the model -/
+theorem gen_edge_len_bridge (l : Option Frac) : C07Mid.edgeLen l = lenOr0 l := by
+  cases l <;> rfl
+
+/-- the half distance the source starts the walk with = `Frac.half` (as used by `midpointOf`); written `/ 2` or `* 0.5` -/
+theorem gen_plen0_bridge (d : Frac) : C07Mid.plen0 d = Frac.half d := by
+  simp [C07Mid.plen0, Frac.div, Frac.half, Frac.mul, Frac.ofInt, frac_mul_def]
+
+/-- the source's choice of the node the walk starts from = the model's (`midpointOf`: deeper leaf first, ties keep the first) -/
+theorem gen_order_bridge (d0 d1 : Frac) : C07Mid.n1IsSecond d0 d1 = Frac.lt d0 d1 := by
+  simp [C07Mid.n1IsSecond, frac_le_eq, frac_beq_eq]
+
+/-- one turn of the source's loop = one unfolding of `midWalk`: in-edge with the same head-side length, go on with the same
+    remaining length, or stop exactly at a node — which must be the PARENT end of the current edge -/
+theorem gen_walk_bridge (nd : Nat) (l : Frac) (par : Nat) (rest : List (Nat × Frac × Nat)) (plen : Frac) :
+    midWalk ((nd, l, par) :: rest) plen =
+      match C07Mid.walkStep l plen with
+      | .edge h => .onEdge nd h
+      | .up p => midWalk rest p
+      | .nodeParent => .onNode par
+      | .nodeSelf => .onNode nd := by
+  by_cases h1 : Frac.lt plen l = true <;> by_cases h2 : Frac.lt l plen = true
+  · exact (frac_lt_asymm _ _ h1 h2).elim
+  all_goals simp [midWalk, C07Mid.walkStep, h1, h2, frac_le_eq, frac_beq_eq]
+
+/-- the two sub-edge lengths when the midpoint is inside an edge: the source's = the ones `rerootAtMidpoint` hands to `splitEdge` -/
+theorem gen_split_lens_bridge (L x : Frac) : C07Mid.splitLens L x = (L - x, x) := by
+  simp [C07Mid.splitLens]
+
+/-- the literal flags of the source's two `reseed_at` calls and its final `is_rooted = True` are those of `rerootAtMidpoint` -/
+theorem gen_midpoint_flags_bridge (s : Bool) (a b nw : Nat) (t : T) :
+    rerootAtMidpoint s a b nw t =
+      match midpointOf a b t with
+      | .fail => none
+      | .onNode nd => some ((reseedAt none C07Mid.nodeReseedCollapse s nd t).1, some C07Mid.setsRooted)
+      | .onEdge h headLen =>
+        match t.find? h with
+        | none => none
+        | some hn =>
+          some ((reseedAt none C07Mid.edgeReseedCollapse s nw
+            (splitEdge h nw (some (C07Mid.splitLens (C07Mid.edgeLen hn.len) headLen).1)
+              (some (C07Mid.splitLens (C07Mid.edgeLen hn.len) headLen).2) t)).1, some C07Mid.setsRooted) := by
+  simp only [rerootAtMidpoint, gen_split_lens_bridge, gen_edge_len_bridge]
+  rfl
+
+/-- `reroot_at_edge`: the source gives `length1` to the inserted node's edge (towards the old tail) and `length2` to the old
+    head's edge, as `rerootAtEdge` does -/
+theorem gen_reroot_edge_bridge (s : Bool) (h nw : Nat) (l1 l2 : Option Frac) (t : T) :
+    rerootAtEdge s h nw l1 l2 t =
+      rerootAtNode s nw (splitEdge h nw (C07Mid.rerootEdgeLens l1 l2).1 (C07Mid.rerootEdgeLens l1 l2).2 t) := by
+  simp [rerootAtEdge, C07Mid.rerootEdgeLens]
 
 end DendroModel.C07
